@@ -37,6 +37,13 @@ type comparison =
 | Lt
 | Gt
 
+(** val compOpp : comparison -> comparison **)
+
+let compOpp = function
+| Eq -> Eq
+| Lt -> Gt
+| Gt -> Lt
+
 module Coq__1 = struct
  (** val add : nat -> nat -> nat **)
  let rec add n0 m =
@@ -54,6 +61,11 @@ type positive =
 type n =
 | N0
 | Npos of positive
+
+type z =
+| Z0
+| Zpos of positive
+| Zneg of positive
 
 module Pos =
  struct
@@ -191,6 +203,11 @@ module Coq_Pos =
   | XI n' -> f (iter f (iter f x n') n')
   | XO n' -> iter f (iter f x n') n'
   | XH -> f x
+
+  (** val pow : positive -> positive -> positive **)
+
+  let pow x =
+    iter (mul x) XH
 
   (** val compare_cont : comparison -> positive -> positive -> comparison **)
 
@@ -369,6 +386,14 @@ module N =
                 | XO p -> Npos p
                 | XH -> N0)
 
+  (** val pow : n -> n -> n **)
+
+  let pow n0 = function
+  | N0 -> Npos XH
+  | Npos p0 -> (match n0 with
+                | N0 -> N0
+                | Npos q -> Npos (Coq_Pos.pow q p0))
+
   (** val pos_div_eucl : positive -> n -> n * n **)
 
   let rec pos_div_eucl a b =
@@ -435,6 +460,34 @@ module N =
   | S n' -> Npos (Coq_Pos.of_succ_nat n')
  end
 
+(** val nth_error : 'a1 list -> nat -> 'a1 option **)
+
+let rec nth_error l = function
+| O -> (match l with
+        | [] -> None
+        | x :: _ -> Some x)
+| S n1 -> (match l with
+           | [] -> None
+           | _ :: l0 -> nth_error l0 n1)
+
+(** val rev : 'a1 list -> 'a1 list **)
+
+let rec rev = function
+| [] -> []
+| x :: l' -> app (rev l') (x :: [])
+
+(** val map : ('a1 -> 'a2) -> 'a1 list -> 'a2 list **)
+
+let rec map f = function
+| [] -> []
+| a :: t -> (f a) :: (map f t)
+
+(** val existsb : ('a1 -> bool) -> 'a1 list -> bool **)
+
+let rec existsb f = function
+| [] -> false
+| a :: l0 -> (||) (f a) (existsb f l0)
+
 (** val firstn : nat -> 'a1 list -> 'a1 list **)
 
 let rec firstn n0 l =
@@ -453,6 +506,230 @@ let rec skipn n0 l =
              | [] -> []
              | _ :: l0 -> skipn n1 l0)
 
+module Z =
+ struct
+  (** val double : z -> z **)
+
+  let double = function
+  | Z0 -> Z0
+  | Zpos p -> Zpos (XO p)
+  | Zneg p -> Zneg (XO p)
+
+  (** val succ_double : z -> z **)
+
+  let succ_double = function
+  | Z0 -> Zpos XH
+  | Zpos p -> Zpos (XI p)
+  | Zneg p -> Zneg (Coq_Pos.pred_double p)
+
+  (** val pred_double : z -> z **)
+
+  let pred_double = function
+  | Z0 -> Zneg XH
+  | Zpos p -> Zpos (Coq_Pos.pred_double p)
+  | Zneg p -> Zneg (XI p)
+
+  (** val pos_sub : positive -> positive -> z **)
+
+  let rec pos_sub x y =
+    match x with
+    | XI p ->
+      (match y with
+       | XI q -> double (pos_sub p q)
+       | XO q -> succ_double (pos_sub p q)
+       | XH -> Zpos (XO p))
+    | XO p ->
+      (match y with
+       | XI q -> pred_double (pos_sub p q)
+       | XO q -> double (pos_sub p q)
+       | XH -> Zpos (Coq_Pos.pred_double p))
+    | XH ->
+      (match y with
+       | XI q -> Zneg (XO q)
+       | XO q -> Zneg (Coq_Pos.pred_double q)
+       | XH -> Z0)
+
+  (** val add : z -> z -> z **)
+
+  let add x y =
+    match x with
+    | Z0 -> y
+    | Zpos x' ->
+      (match y with
+       | Z0 -> x
+       | Zpos y' -> Zpos (Coq_Pos.add x' y')
+       | Zneg y' -> pos_sub x' y')
+    | Zneg x' ->
+      (match y with
+       | Z0 -> x
+       | Zpos y' -> pos_sub y' x'
+       | Zneg y' -> Zneg (Coq_Pos.add x' y'))
+
+  (** val opp : z -> z **)
+
+  let opp = function
+  | Z0 -> Z0
+  | Zpos x0 -> Zneg x0
+  | Zneg x0 -> Zpos x0
+
+  (** val sub : z -> z -> z **)
+
+  let sub m n0 =
+    add m (opp n0)
+
+  (** val mul : z -> z -> z **)
+
+  let mul x y =
+    match x with
+    | Z0 -> Z0
+    | Zpos x' ->
+      (match y with
+       | Z0 -> Z0
+       | Zpos y' -> Zpos (Coq_Pos.mul x' y')
+       | Zneg y' -> Zneg (Coq_Pos.mul x' y'))
+    | Zneg x' ->
+      (match y with
+       | Z0 -> Z0
+       | Zpos y' -> Zneg (Coq_Pos.mul x' y')
+       | Zneg y' -> Zpos (Coq_Pos.mul x' y'))
+
+  (** val compare : z -> z -> comparison **)
+
+  let compare x y =
+    match x with
+    | Z0 -> (match y with
+             | Z0 -> Eq
+             | Zpos _ -> Lt
+             | Zneg _ -> Gt)
+    | Zpos x' -> (match y with
+                  | Zpos y' -> Coq_Pos.compare x' y'
+                  | _ -> Gt)
+    | Zneg x' ->
+      (match y with
+       | Zneg y' -> compOpp (Coq_Pos.compare x' y')
+       | _ -> Lt)
+
+  (** val leb : z -> z -> bool **)
+
+  let leb x y =
+    match compare x y with
+    | Gt -> false
+    | _ -> true
+
+  (** val ltb : z -> z -> bool **)
+
+  let ltb x y =
+    match compare x y with
+    | Lt -> true
+    | _ -> false
+
+  (** val eqb : z -> z -> bool **)
+
+  let eqb x y =
+    match x with
+    | Z0 -> (match y with
+             | Z0 -> true
+             | _ -> false)
+    | Zpos p -> (match y with
+                 | Zpos q -> Coq_Pos.eqb p q
+                 | _ -> false)
+    | Zneg p -> (match y with
+                 | Zneg q -> Coq_Pos.eqb p q
+                 | _ -> false)
+
+  (** val to_N : z -> n **)
+
+  let to_N = function
+  | Zpos p -> Npos p
+  | _ -> N0
+
+  (** val of_N : n -> z **)
+
+  let of_N = function
+  | N0 -> Z0
+  | Npos p -> Zpos p
+
+  (** val pos_div_eucl : positive -> z -> z * z **)
+
+  let rec pos_div_eucl a b =
+    match a with
+    | XI a' ->
+      let (q, r) = pos_div_eucl a' b in
+      let r' = add (mul (Zpos (XO XH)) r) (Zpos XH) in
+      if ltb r' b
+      then ((mul (Zpos (XO XH)) q), r')
+      else ((add (mul (Zpos (XO XH)) q) (Zpos XH)), (sub r' b))
+    | XO a' ->
+      let (q, r) = pos_div_eucl a' b in
+      let r' = mul (Zpos (XO XH)) r in
+      if ltb r' b
+      then ((mul (Zpos (XO XH)) q), r')
+      else ((add (mul (Zpos (XO XH)) q) (Zpos XH)), (sub r' b))
+    | XH -> if leb (Zpos (XO XH)) b then (Z0, (Zpos XH)) else ((Zpos XH), Z0)
+
+  (** val div_eucl : z -> z -> z * z **)
+
+  let div_eucl a b =
+    match a with
+    | Z0 -> (Z0, Z0)
+    | Zpos a' ->
+      (match b with
+       | Z0 -> (Z0, a)
+       | Zpos _ -> pos_div_eucl a' b
+       | Zneg b' ->
+         let (q, r) = pos_div_eucl a' (Zpos b') in
+         (match r with
+          | Z0 -> ((opp q), Z0)
+          | _ -> ((opp (add q (Zpos XH))), (add b r))))
+    | Zneg a' ->
+      (match b with
+       | Z0 -> (Z0, a)
+       | Zpos _ ->
+         let (q, r) = pos_div_eucl a' b in
+         (match r with
+          | Z0 -> ((opp q), Z0)
+          | _ -> ((opp (add q (Zpos XH))), (sub b r)))
+       | Zneg b' -> let (q, r) = pos_div_eucl a' (Zpos b') in (q, (opp r)))
+
+  (** val modulo : z -> z -> z **)
+
+  let modulo a b =
+    let (_, r) = div_eucl a b in r
+
+  (** val quotrem : z -> z -> z * z **)
+
+  let quotrem a b =
+    match a with
+    | Z0 -> (Z0, Z0)
+    | Zpos a0 ->
+      (match b with
+       | Z0 -> (Z0, a)
+       | Zpos b0 ->
+         let (q, r) = N.pos_div_eucl a0 (Npos b0) in ((of_N q), (of_N r))
+       | Zneg b0 ->
+         let (q, r) = N.pos_div_eucl a0 (Npos b0) in
+         ((opp (of_N q)), (of_N r)))
+    | Zneg a0 ->
+      (match b with
+       | Z0 -> (Z0, a)
+       | Zpos b0 ->
+         let (q, r) = N.pos_div_eucl a0 (Npos b0) in
+         ((opp (of_N q)), (opp (of_N r)))
+       | Zneg b0 ->
+         let (q, r) = N.pos_div_eucl a0 (Npos b0) in
+         ((of_N q), (opp (of_N r))))
+
+  (** val quot : z -> z -> z **)
+
+  let quot a b =
+    fst (quotrem a b)
+
+  (** val rem : z -> z -> z **)
+
+  let rem a b =
+    snd (quotrem a b)
+ end
+
 type 'a res =
 | Ok of 'a
 | Err of n
@@ -470,6 +747,28 @@ let bind r f =
 
 let guard c k f =
   if c then Err k else f
+
+type ovf =
+| Checked
+| Wrapping
+
+(** val usub : ovf -> n -> n -> n -> n res **)
+
+let usub m w a b =
+  if N.leb b a
+  then Ok (N.sub a b)
+  else (match m with
+        | Checked -> Panic
+        | Wrapping -> Ok (N.sub (N.add a (N.pow (Npos (XO XH)) w)) b))
+
+(** val umul : ovf -> n -> n -> n -> n res **)
+
+let umul m w a b =
+  if N.ltb (N.mul a b) (N.pow (Npos (XO XH)) w)
+  then Ok (N.mul a b)
+  else (match m with
+        | Checked -> Panic
+        | Wrapping -> Ok (N.modulo (N.mul a b) (N.pow (Npos (XO XH)) w)))
 
 (** val lenN : 'a1 list -> n **)
 
@@ -498,6 +797,11 @@ let rec le_val = function
 | b :: t ->
   N.add b (N.mul (Npos (XO (XO (XO (XO (XO (XO (XO (XO XH))))))))) (le_val t))
 
+(** val be_val : n list -> n **)
+
+let be_val l =
+  le_val (rev l)
+
 (** val le_enc : nat -> n -> n list **)
 
 let rec le_enc n0 x =
@@ -514,10 +818,39 @@ let slice l a b =
   then Ok (subN l a (N.sub b a))
   else Panic
 
+(** val slice_from : 'a1 list -> n -> 'a1 list res **)
+
+let slice_from l a =
+  if N.leb a (lenN l) then Ok (dropN a l) else Panic
+
+(** val slice_to : 'a1 list -> n -> 'a1 list res **)
+
+let slice_to l b =
+  if N.leb b (lenN l) then Ok (takeN b l) else Panic
+
+(** val idx : 'a1 list -> n -> 'a1 res **)
+
+let idx l i =
+  match nth_error l (N.to_nat i) with
+  | Some b -> Ok b
+  | None -> Panic
+
 (** val arr : n -> 'a1 list -> 'a1 list res **)
 
 let arr n0 s =
   if N.eqb (lenN s) n0 then Ok s else Panic
+
+(** val to_signed : n -> n -> z **)
+
+let to_signed w x =
+  if N.ltb x (N.pow (Npos (XO XH)) (N.sub w (Npos XH)))
+  then Z.of_N x
+  else Z.sub (Z.of_N x) (Z.of_N (N.pow (Npos (XO XH)) w))
+
+(** val of_signed : n -> z -> n **)
+
+let of_signed w z0 =
+  Z.to_N (Z.modulo z0 (Z.of_N (N.pow (Npos (XO XH)) w)))
 
 type trg = { t_udp : n; t_ts : n; t_out : n; t_in : n; t_pulser : n;
              t_trigbm : n; t_nim : n; t_esata : n; t_mlu : bool; t_aw16p : 
@@ -1004,3 +1337,1157 @@ let trg_encode p =
 let trg_obs p =
   p.t_udp :: (p.t_ts :: (p.t_out :: (p.t_in :: (p.t_pulser :: (p.t_trigbm :: (p.t_nim :: (p.t_esata :: ((
     if p.t_mlu then Npos XH else N0) :: (p.t_aw16p :: (p.t_drift :: (p.t_scaled :: (p.t_aw16m :: (p.t_aw16b :: (p.t_bsc :: (p.t_bscm :: (p.t_coin :: (p.t_fw :: [])))))))))))))))))
+
+type entry =
+| TS of n * bool * n
+| MK of bool * n
+
+(** val nUM_INPUT_CHANNELS : n **)
+
+let nUM_INPUT_CHANNELS =
+  Npos (XI (XI (XO (XI (XI XH)))))
+
+(** val word : n -> n -> n -> n -> entry option **)
+
+let word b0 b1 b2 b3 =
+  let temp =
+    N.add
+      (N.add b0 (N.mul (Npos (XO (XO (XO (XO (XO (XO (XO (XO XH))))))))) b1))
+      (N.mul (Npos (XO (XO (XO (XO (XO (XO (XO (XO (XO (XO (XO (XO (XO (XO
+        (XO (XO XH))))))))))))))))) b2)
+  in
+  if (&&)
+       (N.eqb (N.coq_land b3 (Npos (XO (XO (XO (XO (XO (XO (XO XH)))))))))
+         (Npos (XO (XO (XO (XO (XO (XO (XO XH)))))))))
+       (N.ltb (N.coq_land b3 (Npos (XI (XI (XI (XI (XI (XI XH))))))))
+         nUM_INPUT_CHANNELS)
+  then Some (TS ((N.coq_land b3 (Npos (XI (XI (XI (XI (XI (XI XH)))))))),
+         (N.eqb (N.coq_land temp (Npos XH)) (Npos XH)),
+         (N.coq_land temp (Npos (XO (XI (XI (XI (XI (XI (XI (XI (XI (XI (XI
+           (XI (XI (XI (XI (XI (XI (XI (XI (XI (XI (XI (XI
+           XH)))))))))))))))))))))))))))
+  else if N.eqb b3 (Npos (XI (XI (XI (XI (XI (XI (XI XH))))))))
+       then Some (MK
+              ((N.eqb
+                 (N.coq_land temp (Npos (XO (XO (XO (XO (XO (XO (XO (XO (XO
+                   (XO (XO (XO (XO (XO (XO (XO (XO (XO (XO (XO (XO (XO (XO
+                   XH))))))))))))))))))))))))) (Npos (XO (XO (XO (XO (XO (XO
+                 (XO (XO (XO (XO (XO (XO (XO (XO (XO (XO (XO (XO (XO (XO (XO
+                 (XO (XO XH))))))))))))))))))))))))),
+              (N.coq_land temp (Npos (XI (XI (XI (XI (XI (XI (XI (XI (XI (XI
+                (XI (XI (XI (XI (XI (XI (XI (XI (XI (XI (XI (XI
+                XH))))))))))))))))))))))))))
+       else None
+
+type elem =
+| E of entry
+| Scalers
+
+(** val sCALERS_BODY : n **)
+
+let sCALERS_BODY =
+  N.add (N.mul nUM_INPUT_CHANNELS (Npos (XO (XO XH)))) (Npos (XO (XO XH)))
+
+(** val next : n list -> (elem * n list) option **)
+
+let next = function
+| [] -> None
+| b0 :: l0 ->
+  (match l0 with
+   | [] -> None
+   | b1 :: l1 ->
+     (match l1 with
+      | [] -> None
+      | b2 :: l2 ->
+        (match l2 with
+         | [] -> None
+         | b3 :: r ->
+           (match word b0 b1 b2 b3 with
+            | Some e0 -> Some ((E e0), r)
+            | None ->
+              if (&&)
+                   ((&&)
+                     ((&&)
+                       ((&&) (N.eqb b0 (Npos (XO (XO (XI (XI (XI XH)))))))
+                         (N.eqb b1 N0)) (N.eqb b2 N0))
+                     (N.eqb b3 (Npos (XO (XI (XI (XI (XI (XI (XI XH))))))))))
+                   (N.leb sCALERS_BODY (lenN r))
+              then Some (Scalers, (dropN sCALERS_BODY r))
+              else None))))
+
+(** val parse : nat -> n list -> entry list * n list **)
+
+let rec parse fuel l =
+  match fuel with
+  | O -> ([], l)
+  | S f ->
+    (match next l with
+     | Some p ->
+       let (e0, r) = p in
+       (match e0 with
+        | E e1 -> let (es, r') = parse f r in ((e1 :: es), r')
+        | Scalers -> parse f r)
+     | None -> ([], l))
+
+(** val cb_fifo : n list -> entry list * n list **)
+
+let cb_fifo l =
+  parse (length l) l
+
+(** val cb_feed : n list -> n list list -> entry list * n list **)
+
+let rec cb_feed rem0 = function
+| [] -> ([], rem0)
+| p :: ps ->
+  let (es, r) = cb_fifo (app rem0 p) in
+  let (es', r') = cb_feed r ps in ((app es es'), r')
+
+(** val entry_obs : entry -> n list **)
+
+let entry_obs = function
+| TS (c, tr, t) -> N0 :: (c :: ((if tr then Npos XH else N0) :: (t :: [])))
+| MK (top, c) -> (Npos XH) :: ((if top then Npos XH else N0) :: (c :: []))
+
+type adc_long = { al_mac : n list; al_offset : z; al_build : n;
+                  al_wave : z list }
+
+type adc = { a_trig : n; a_module : n; a_chan : n; a_req : n; a_ts : 
+             n; a_long : adc_long option; a_baseline : z; a_keep_last : 
+             n; a_keep_bit : bool; a_supp : bool }
+
+(** val bASELINE_SAMPLES : n **)
+
+let bASELINE_SAMPLES =
+  Npos (XO (XO (XO (XO (XO (XO XH))))))
+
+(** val mIN_KEEP_LAST : n **)
+
+let mIN_KEEP_LAST =
+  N.add (N.div (N.add bASELINE_SAMPLES (Npos (XO XH))) (Npos (XO XH))) (Npos
+    XH)
+
+(** val rd_be : n list -> n -> n -> n res **)
+
+let rd_be l a n0 =
+  bind (slice l a (N.add a n0)) (fun s ->
+    bind (arr n0 s) (fun s' -> Ok (be_val s')))
+
+(** val list_eqb : n list -> n list -> bool **)
+
+let rec list_eqb a b =
+  match a with
+  | [] -> (match b with
+           | [] -> true
+           | _ :: _ -> false)
+  | x :: a' ->
+    (match b with
+     | [] -> false
+     | y :: b' -> (&&) (N.eqb x y) (list_eqb a' b'))
+
+(** val mac_known : n list list -> n list -> bool **)
+
+let mac_known macs mac =
+  existsb (list_eqb mac) macs
+
+(** val chunks2_be : n list -> z list **)
+
+let rec chunks2_be = function
+| [] -> []
+| h :: l ->
+  (match l with
+   | [] -> []
+   | lo :: t ->
+     (to_signed (Npos (XO (XO (XO (XO XH))))) (be_val (h :: (lo :: [])))) :: 
+       (chunks2_be t))
+
+(** val iadd32 : ovf -> z -> z -> z res **)
+
+let iadd32 m a b =
+  let s = Z.add a b in
+  if (&&)
+       (Z.leb (Zneg (XO (XO (XO (XO (XO (XO (XO (XO (XO (XO (XO (XO (XO (XO
+         (XO (XO (XO (XO (XO (XO (XO (XO (XO (XO (XO (XO (XO (XO (XO (XO (XO
+         XH)))))))))))))))))))))))))))))))) s)
+       (Z.leb s (Zpos (XI (XI (XI (XI (XI (XI (XI (XI (XI (XI (XI (XI (XI (XI
+         (XI (XI (XI (XI (XI (XI (XI (XI (XI (XI (XI (XI (XI (XI (XI (XI
+         XH))))))))))))))))))))))))))))))))
+  then Ok s
+  else (match m with
+        | Checked -> Panic
+        | Wrapping ->
+          Ok
+            (to_signed (Npos (XO (XO (XO (XO (XO XH))))))
+              (of_signed (Npos (XO (XO (XO (XO (XO XH)))))) s)))
+
+(** val isum32 : ovf -> z -> z list -> z res **)
+
+let rec isum32 m acc = function
+| [] -> Ok acc
+| x :: t -> bind (iadd32 m acc x) (fun a -> isum32 m a t)
+
+(** val i16_unwrap : z -> z res **)
+
+let i16_unwrap z0 =
+  if (&&)
+       (Z.leb (Zneg (XO (XO (XO (XO (XO (XO (XO (XO (XO (XO (XO (XO (XO (XO
+         (XO XH)))))))))))))))) z0)
+       (Z.leb z0 (Zpos (XI (XI (XI (XI (XI (XI (XI (XI (XI (XI (XI (XI (XI
+         (XI XH))))))))))))))))
+  then Ok z0
+  else Panic
+
+(** val e : n **)
+
+let e =
+  Npos XH
+
+(** val adc_decode : n list list -> ovf -> n list -> adc res **)
+
+let adc_decode macs m l =
+  let len = lenN l in
+  guard (N.ltb len (Npos (XO (XO (XO (XO XH)))))) e
+    (bind (idx l N0) (fun b0 ->
+      guard (negb (N.eqb b0 (Npos XH))) e
+        (bind (idx l (Npos XH)) (fun b1 ->
+          guard (negb (N.eqb b1 (Npos (XI XH)))) e
+            (bind (rd_be l (Npos (XO XH)) (Npos (XO XH))) (fun trig ->
+              bind (idx l (Npos (XO (XO XH)))) (fun modid ->
+                guard (N.ltb (Npos (XI (XI XH))) modid) e
+                  (bind (idx l (Npos (XI (XO XH)))) (fun chan ->
+                    guard
+                      (if N.ltb chan (Npos (XO (XO (XO (XO (XO (XO (XO
+                            XH))))))))
+                       then N.ltb (Npos (XI (XI (XI XH)))) chan
+                       else N.ltb (Npos (XI (XI (XI (XI XH)))))
+                              (N.sub chan (Npos (XO (XO (XO (XO (XO (XO (XO
+                                XH)))))))))) e
+                      (bind (rd_be l (Npos (XO (XI XH))) (Npos (XO XH)))
+                        (fun req ->
+                        bind
+                          (bind
+                            (slice l (Npos (XO (XO (XO XH)))) (Npos (XO (XO
+                              (XI XH))))) (fun s ->
+                            arr (Npos (XO (XO XH))) s)) (fun lsw ->
+                          bind
+                            (usub m (Npos (XO (XO (XO (XO (XO (XO XH)))))))
+                              len (Npos (XO XH))) (fun len2 ->
+                            bind
+                              (bind (slice_from l len2) (fun s ->
+                                bind (arr (Npos (XO XH)) s) (fun a -> Ok
+                                  (to_signed (Npos (XO (XO (XO (XO XH)))))
+                                    (be_val a))))) (fun sb ->
+                              bind
+                                (usub m (Npos (XO (XO (XO (XO (XO (XO
+                                  XH))))))) len (Npos (XO (XO XH))))
+                                (fun len4 ->
+                                bind
+                                  (bind (slice_from l len4) (fun s ->
+                                    bind (slice_to s (Npos (XO XH)))
+                                      (fun s2 ->
+                                      bind (arr (Npos (XO XH)) s2) (fun a ->
+                                        Ok (be_val a))))) (fun footer ->
+                                  let keep_last =
+                                    N.coq_land footer (Npos (XI (XI (XI (XI
+                                      (XI (XI (XI (XI (XI (XI (XI
+                                      XH))))))))))))
+                                  in
+                                  let keep_bit =
+                                    N.eqb
+                                      (N.coq_land
+                                        (N.shiftr footer (Npos (XO (XO (XI
+                                          XH))))) (Npos XH)) (Npos XH)
+                                  in
+                                  let supp =
+                                    N.eqb
+                                      (N.coq_land
+                                        (N.shiftr footer (Npos (XI (XO (XI
+                                          XH))))) (Npos XH)) (Npos XH)
+                                  in
+                                  if N.eqb len (Npos (XO (XO (XO (XO XH)))))
+                                  then guard (negb supp) e
+                                         (guard keep_bit e
+                                           (guard (negb (N.eqb keep_last N0))
+                                             e (Ok { a_trig = trig;
+                                             a_module = modid; a_chan = chan;
+                                             a_req = req; a_ts =
+                                             (be_val lsw); a_long = None;
+                                             a_baseline = sb; a_keep_last =
+                                             keep_last; a_keep_bit =
+                                             keep_bit; a_supp = supp })))
+                                  else guard
+                                         (N.ltb len (Npos (XO (XO (XI (XO (XO
+                                           XH))))))) e
+                                         (bind
+                                           (slice l (Npos (XO (XO (XI XH))))
+                                             (Npos (XO (XI (XI XH)))))
+                                           (fun z0 ->
+                                           guard
+                                             (negb
+                                               (list_eqb z0
+                                                 (N0 :: (N0 :: [])))) e
+                                             (bind
+                                               (bind
+                                                 (slice l (Npos (XO (XI (XI
+                                                   XH)))) (Npos (XO (XO (XI
+                                                   (XO XH)))))) (fun s ->
+                                                 arr (Npos (XO (XI XH))) s))
+                                               (fun mac ->
+                                               guard
+                                                 (negb (mac_known macs mac))
+                                                 e
+                                                 (bind
+                                                   (bind
+                                                     (slice l (Npos (XO (XO
+                                                       (XI (XO XH))))) (Npos
+                                                       (XO (XO (XO (XI
+                                                       XH)))))) (fun s ->
+                                                     arr (Npos (XO (XO XH))) s))
+                                                   (fun msw ->
+                                                   bind
+                                                     (arr (Npos (XO (XO (XO
+                                                       XH)))) (app msw lsw))
+                                                     (fun ets ->
+                                                     bind
+                                                       (rd_be l (Npos (XO (XO
+                                                         (XO (XI XH)))))
+                                                         (Npos (XO (XO XH))))
+                                                       (fun off ->
+                                                       bind
+                                                         (rd_be l (Npos (XO
+                                                           (XO (XI (XI
+                                                           XH))))) (Npos (XO
+                                                           (XO XH))))
+                                                         (fun build ->
+                                                         bind
+                                                           (usub m (Npos (XO
+                                                             (XO (XO (XO (XO
+                                                             (XO XH)))))))
+                                                             len (Npos (XO
+                                                             (XO (XI (XO (XO
+                                                             XH)))))))
+                                                           (fun wb ->
+                                                           guard
+                                                             (negb
+                                                               (N.eqb
+                                                                 (N.modulo wb
+                                                                   (Npos (XO
+                                                                   XH))) N0))
+                                                             e
+                                                             (bind
+                                                               (bind
+                                                                 (slice_from
+                                                                   l (Npos
+                                                                   (XO (XO
+                                                                   (XO (XO
+                                                                   (XO
+                                                                   XH)))))))
+                                                                 (fun s ->
+                                                                 slice_to s wb))
+                                                               (fun ws ->
+                                                               let wave =
+                                                                 chunks2_be ws
+                                                               in
+                                                               let n0 =
+                                                                 lenN wave
+                                                               in
+                                                               let max_samples =
+                                                                 if N.leb
+                                                                    (Npos (XO
+                                                                    XH)) req
+                                                                 then 
+                                                                   N.sub req
+                                                                    (Npos (XO
+                                                                    XH))
+                                                                 else N0
+                                                               in
+                                                               guard
+                                                                 (N.ltb n0
+                                                                   bASELINE_SAMPLES)
+                                                                 e
+                                                                 (bind
+                                                                   (slice_to
+                                                                    wave
+                                                                    bASELINE_SAMPLES)
+                                                                   (fun first ->
+                                                                   bind
+                                                                    (isum32 m
+                                                                    Z0 first)
+                                                                    (fun num ->
+                                                                    let d =
+                                                                    Z.quot
+                                                                    num (Zpos
+                                                                    (XO (XO
+                                                                    (XO (XO
+                                                                    (XO (XO
+                                                                    XH)))))))
+                                                                    in
+                                                                    let data_baseline =
+                                                                    if 
+                                                                    Z.ltb
+                                                                    (Z.rem
+                                                                    num (Zpos
+                                                                    (XO (XO
+                                                                    (XO (XO
+                                                                    (XO (XO
+                                                                    XH))))))))
+                                                                    Z0
+                                                                    then 
+                                                                    Z.sub d
+                                                                    (Zpos XH)
+                                                                    else d
+                                                                    in
+                                                                    if 
+                                                                    negb
+                                                                    (Z.eqb
+                                                                    data_baseline
+                                                                    sb)
+                                                                    then 
+                                                                    bind
+                                                                    (i16_unwrap
+                                                                    data_baseline)
+                                                                    (fun _ ->
+                                                                    Err e)
+                                                                    else 
+                                                                    let ok =
+                                                                    Ok
+                                                                    { a_trig =
+                                                                    trig;
+                                                                    a_module =
+                                                                    modid;
+                                                                    a_chan =
+                                                                    chan;
+                                                                    a_req =
+                                                                    req;
+                                                                    a_ts =
+                                                                    (be_val
+                                                                    ets);
+                                                                    a_long =
+                                                                    (Some
+                                                                    { al_mac =
+                                                                    mac;
+                                                                    al_offset =
+                                                                    (to_signed
+                                                                    (Npos (XO
+                                                                    (XO (XO
+                                                                    (XO (XO
+                                                                    XH))))))
+                                                                    off);
+                                                                    al_build =
+                                                                    build;
+                                                                    al_wave =
+                                                                    wave });
+                                                                    a_baseline =
+                                                                    sb;
+                                                                    a_keep_last =
+                                                                    keep_last;
+                                                                    a_keep_bit =
+                                                                    keep_bit;
+                                                                    a_supp =
+                                                                    supp }
+                                                                    in
+                                                                    if supp
+                                                                    then 
+                                                                    guard
+                                                                    (negb
+                                                                    keep_bit)
+                                                                    e
+                                                                    (guard
+                                                                    (N.ltb
+                                                                    keep_last
+                                                                    mIN_KEEP_LAST)
+                                                                    e
+                                                                    (bind
+                                                                    (usub m
+                                                                    (Npos (XO
+                                                                    (XO (XO
+                                                                    (XO (XO
+                                                                    (XO
+                                                                    XH)))))))
+                                                                    keep_last
+                                                                    (Npos XH))
+                                                                    (fun k1 ->
+                                                                    bind
+                                                                    (umul m
+                                                                    (Npos (XO
+                                                                    (XO (XO
+                                                                    (XO (XO
+                                                                    (XO
+                                                                    XH)))))))
+                                                                    k1 (Npos
+                                                                    (XO XH)))
+                                                                    (fun k2 ->
+                                                                    bind
+                                                                    (usub m
+                                                                    (Npos (XO
+                                                                    (XO (XO
+                                                                    (XO (XO
+                                                                    (XO
+                                                                    XH)))))))
+                                                                    k2 (Npos
+                                                                    (XO XH)))
+                                                                    (fun last_index ->
+                                                                    guard
+                                                                    (N.leb n0
+                                                                    last_index)
+                                                                    e
+                                                                    (guard
+                                                                    (N.ltb
+                                                                    max_samples
+                                                                    n0) e ok))))))
+                                                                    else 
+                                                                    bind
+                                                                    (if keep_bit
+                                                                    then 
+                                                                    guard
+                                                                    (N.ltb
+                                                                    keep_last
+                                                                    mIN_KEEP_LAST)
+                                                                    e
+                                                                    (bind
+                                                                    (usub m
+                                                                    (Npos (XO
+                                                                    (XO (XO
+                                                                    (XO (XO
+                                                                    (XO
+                                                                    XH)))))))
+                                                                    keep_last
+                                                                    (Npos XH))
+                                                                    (fun k1 ->
+                                                                    bind
+                                                                    (umul m
+                                                                    (Npos (XO
+                                                                    (XO (XO
+                                                                    (XO (XO
+                                                                    (XO
+                                                                    XH)))))))
+                                                                    k1 (Npos
+                                                                    (XO XH)))
+                                                                    (fun k2 ->
+                                                                    bind
+                                                                    (usub m
+                                                                    (Npos (XO
+                                                                    (XO (XO
+                                                                    (XO (XO
+                                                                    (XO
+                                                                    XH)))))))
+                                                                    k2 (Npos
+                                                                    (XO XH)))
+                                                                    (fun last_index ->
+                                                                    guard
+                                                                    (N.leb n0
+                                                                    last_index)
+                                                                    e (Ok ())))))
+                                                                    else 
+                                                                    guard
+                                                                    (negb
+                                                                    (N.eqb
+                                                                    keep_last
+                                                                    N0)) e
+                                                                    (Ok ()))
+                                                                    (fun _ ->
+                                                                    guard
+                                                                    (negb
+                                                                    (N.eqb n0
+                                                                    max_samples))
+                                                                    e ok))))))))))))))))))))))))))))))))
+
+(** val alpha16_boards : (n list * n list) list **)
+
+let alpha16_boards =
+  (((Npos (XO (XO (XO (XO (XI XH)))))) :: ((Npos (XI (XO (XO (XI (XI
+    XH)))))) :: [])), ((Npos (XO (XO (XO (XI (XI (XO (XI XH)))))))) :: ((Npos
+    (XO (XO (XO (XO (XO (XO (XO XH)))))))) :: ((Npos (XI (XO (XO (XI (XI
+    XH)))))) :: ((Npos (XO (XO (XO (XI (XO (XI XH))))))) :: ((Npos (XI (XI
+    (XI (XO (XI XH)))))) :: ((Npos (XO (XO (XI (XI (XO (XO
+    XH))))))) :: []))))))) :: ((((Npos (XI (XO (XO (XO (XI XH)))))) :: ((Npos
+    (XO (XO (XO (XO (XI XH)))))) :: [])), ((Npos (XO (XO (XO (XI (XI (XO (XI
+    XH)))))))) :: ((Npos (XO (XO (XO (XO (XO (XO (XO XH)))))))) :: ((Npos (XI
+    (XO (XO (XI (XI XH)))))) :: ((Npos (XO (XO (XO (XI (XO (XI
+    XH))))))) :: ((Npos (XO (XI (XO (XI (XO (XI (XO XH)))))))) :: ((Npos (XI
+    (XO (XI (XO (XO XH)))))) :: []))))))) :: ((((Npos (XI (XO (XO (XO (XI
+    XH)))))) :: ((Npos (XI (XO (XO (XO (XI XH)))))) :: [])), ((Npos (XO (XO
+    (XO (XI (XI (XO (XI XH)))))))) :: ((Npos (XO (XO (XO (XO (XO (XO (XO
+    XH)))))))) :: ((Npos (XI (XO (XO (XI (XI XH)))))) :: ((Npos (XO (XO (XO
+    (XI (XO (XI XH))))))) :: ((Npos (XO (XO (XI (XI (XO (XI (XO
+    XH)))))))) :: ((Npos (XI (XI (XI (XI (XI (XI
+    XH))))))) :: []))))))) :: ((((Npos (XI (XO (XO (XO (XI XH)))))) :: ((Npos
+    (XO (XI (XO (XO (XI XH)))))) :: [])), ((Npos (XO (XO (XO (XI (XI (XO (XI
+    XH)))))))) :: ((Npos (XO (XO (XO (XO (XO (XO (XO XH)))))))) :: ((Npos (XI
+    (XO (XO (XI (XI XH)))))) :: ((Npos (XO (XO (XO (XI (XO (XI
+    XH))))))) :: ((Npos (XI (XI (XI (XI (XO (XO XH))))))) :: ((Npos (XI (XI
+    (XI (XO (XO (XI (XO XH)))))))) :: []))))))) :: ((((Npos (XI (XO (XO (XO
+    (XI XH)))))) :: ((Npos (XI (XI (XO (XO (XI XH)))))) :: [])), ((Npos (XO
+    (XO (XO (XI (XI (XO (XI XH)))))))) :: ((Npos (XO (XO (XO (XO (XO (XO (XO
+    XH)))))))) :: ((Npos (XI (XO (XO (XI (XI XH)))))) :: ((Npos (XO (XO (XO
+    (XI (XO (XI XH))))))) :: ((Npos (XO (XI (XO (XI (XO (XO (XI
+    XH)))))))) :: ((Npos (XO (XI (XI (XO (XO (XI (XO
+    XH)))))))) :: []))))))) :: ((((Npos (XI (XO (XO (XO (XI
+    XH)))))) :: ((Npos (XO (XO (XI (XO (XI XH)))))) :: [])), ((Npos (XO (XO
+    (XO (XI (XI (XO (XI XH)))))))) :: ((Npos (XO (XO (XO (XO (XO (XO (XO
+    XH)))))))) :: ((Npos (XI (XO (XO (XI (XI XH)))))) :: ((Npos (XO (XO (XO
+    (XI (XO (XI XH))))))) :: ((Npos (XO (XI (XI (XI (XO (XO (XO
+    XH)))))))) :: ((Npos (XO (XI (XO (XO (XO (XO (XO
+    XH)))))))) :: []))))))) :: ((((Npos (XI (XO (XO (XO (XI
+    XH)))))) :: ((Npos (XO (XI (XI (XO (XI XH)))))) :: [])), ((Npos (XO (XO
+    (XO (XI (XI (XO (XI XH)))))))) :: ((Npos (XO (XO (XO (XO (XO (XO (XO
+    XH)))))))) :: ((Npos (XI (XO (XO (XI (XI XH)))))) :: ((Npos (XO (XO (XO
+    (XI (XO (XI XH))))))) :: ((Npos (XI (XI (XI (XI (XO (XI
+    XH))))))) :: ((Npos (XO (XI (XO (XO (XO (XI (XO
+    XH)))))))) :: []))))))) :: ((((Npos (XI (XO (XO (XO (XI
+    XH)))))) :: ((Npos (XO (XO (XO (XI (XI XH)))))) :: [])), ((Npos (XO (XO
+    (XO (XI (XI (XO (XI XH)))))))) :: ((Npos (XO (XO (XO (XO (XO (XO (XO
+    XH)))))))) :: ((Npos (XI (XO (XO (XI (XI XH)))))) :: ((Npos (XO (XO (XO
+    (XI (XO (XI XH))))))) :: ((Npos (XO (XI (XI (XI (XO (XO (XO
+    XH)))))))) :: ((Npos (XO (XI (XO (XO (XI (XO
+    XH))))))) :: []))))))) :: [])))))))
+
+(** val padwing_boards : ((n list * n list) * n) list **)
+
+let padwing_boards =
+  ((((Npos (XO (XO (XO (XO (XI XH)))))) :: ((Npos (XO (XO (XO (XO (XI
+    XH)))))) :: [])), ((Npos (XO (XO (XI (XI (XO (XI (XI XH)))))))) :: ((Npos
+    (XO (XO (XO (XI (XO XH)))))) :: ((Npos (XI (XI (XI (XI (XI (XI (XI
+    XH)))))))) :: ((Npos (XI (XI (XI (XO (XO (XO (XO XH)))))))) :: ((Npos (XO
+    (XO (XI (XO (XI (XO XH))))))) :: ((Npos (XO XH)) :: []))))))), (Npos (XO
+    (XO (XI (XI (XO (XI (XI (XI (XO (XO (XO (XI (XO (XI (XO (XO (XI (XI (XI
+    (XI (XI (XI (XI (XI (XI (XI (XI (XO (XO (XO (XO
+    XH))))))))))))))))))))))))))))))))) :: (((((Npos (XO (XO (XO (XO (XI
+    XH)))))) :: ((Npos (XI (XO (XO (XO (XI XH)))))) :: [])), ((Npos (XO (XO
+    (XI (XI (XO (XI (XI XH)))))))) :: ((Npos (XO (XO (XO (XI (XO
+    XH)))))) :: ((Npos (XO (XI (XO (XI (XI (XI (XI XH)))))))) :: ((Npos (XO
+    (XI (XO (XO (XO (XI (XO XH)))))))) :: ((Npos (XO (XO (XI (XO (XI (XO
+    XH))))))) :: ((Npos (XO XH)) :: []))))))), (Npos (XO (XO (XI (XI (XO (XI
+    (XI (XI (XO (XO (XO (XI (XO (XI (XO (XO (XO (XI (XO (XI (XI (XI (XI (XI
+    (XO (XI (XO (XO (XO (XI (XO
+    XH))))))))))))))))))))))))))))))))) :: (((((Npos (XO (XO (XO (XO (XI
+    XH)))))) :: ((Npos (XO (XI (XO (XO (XI XH)))))) :: [])), ((Npos (XO (XO
+    (XI (XI (XO (XI (XI XH)))))))) :: ((Npos (XO (XO (XO (XI (XO
+    XH)))))) :: ((Npos (XO (XO (XO (XI (XO (XO (XO XH)))))))) :: ((Npos (XO
+    (XO (XI (XI (XO (XI XH))))))) :: ((Npos (XO (XO (XI (XO (XI (XO
+    XH))))))) :: ((Npos (XO XH)) :: []))))))), (Npos (XO (XO (XI (XI (XO (XI
+    (XI (XI (XO (XO (XO (XI (XO (XI (XO (XO (XO (XO (XO (XI (XO (XO (XO (XI
+    (XO (XO (XI (XI (XO (XI XH)))))))))))))))))))))))))))))))) :: (((((Npos
+    (XO (XO (XO (XO (XI XH)))))) :: ((Npos (XI (XI (XO (XO (XI
+    XH)))))) :: [])), ((Npos (XO (XO (XI (XI (XO (XI (XI XH)))))))) :: ((Npos
+    (XO (XO (XO (XI (XO XH)))))) :: ((Npos (XO (XI (XO (XO (XO (XI (XI
+    XH)))))))) :: ((Npos (XI (XO (XO (XO (XI XH)))))) :: ((Npos (XO (XO (XI
+    (XO (XI (XO XH))))))) :: ((Npos (XO XH)) :: []))))))), (Npos (XO (XO (XI
+    (XI (XO (XI (XI (XI (XO (XO (XO (XI (XO (XI (XO (XO (XO (XI (XO (XO (XO
+    (XI (XI (XI (XI (XO (XO (XO (XI
+    XH))))))))))))))))))))))))))))))) :: (((((Npos (XO (XO (XO (XO (XI
+    XH)))))) :: ((Npos (XO (XO (XI (XO (XI XH)))))) :: [])), ((Npos (XO (XO
+    (XI (XI (XO (XI (XI XH)))))))) :: ((Npos (XI (XO (XO (XI (XO
+    XH)))))) :: ((Npos (XO (XO (XI XH)))) :: ((Npos (XI (XO (XO (XI (XI (XI
+    XH))))))) :: ((Npos (XO (XO (XI (XO (XI (XO XH))))))) :: ((Npos (XO
+    XH)) :: []))))))), (Npos (XO (XO (XI (XI (XO (XI (XI (XI (XI (XO (XO (XI
+    (XO (XI (XO (XO (XO (XO (XI (XI (XO (XO (XO (XO (XI (XO (XO (XI (XI (XI
+    XH)))))))))))))))))))))))))))))))) :: (((((Npos (XO (XO (XO (XO (XI
+    XH)))))) :: ((Npos (XI (XO (XI (XO (XI XH)))))) :: [])), ((Npos (XO (XO
+    (XI (XI (XO (XI (XI XH)))))))) :: ((Npos (XO (XO (XO (XI (XO
+    XH)))))) :: ((Npos (XI (XI (XO (XO (XI (XO (XI XH)))))))) :: ((Npos (XI
+    (XO (XI (XO (XO (XO XH))))))) :: ((Npos (XO (XO (XI (XO (XI (XO
+    XH))))))) :: ((Npos (XO XH)) :: []))))))), (Npos (XO (XO (XI (XI (XO (XI
+    (XI (XI (XO (XO (XO (XI (XO (XI (XO (XO (XI (XI (XO (XO (XI (XO (XI (XI
+    (XI (XO (XI (XO (XO (XO XH)))))))))))))))))))))))))))))))) :: (((((Npos
+    (XO (XO (XO (XO (XI XH)))))) :: ((Npos (XO (XI (XI (XO (XI
+    XH)))))) :: [])), ((Npos (XO (XO (XI (XI (XO (XI (XI XH)))))))) :: ((Npos
+    (XO (XO (XO (XI (XO XH)))))) :: ((Npos (XO (XI (XO (XI (XI (XO (XI
+    XH)))))))) :: ((Npos (XO (XI XH))) :: ((Npos (XO (XO (XI (XO (XI (XO
+    XH))))))) :: ((Npos (XO XH)) :: []))))))), (Npos (XO (XO (XI (XI (XO (XI
+    (XI (XI (XO (XO (XO (XI (XO (XI (XO (XO (XO (XI (XO (XI (XI (XO (XI (XI
+    (XO (XI XH)))))))))))))))))))))))))))) :: (((((Npos (XO (XO (XO (XO (XI
+    XH)))))) :: ((Npos (XI (XI (XI (XO (XI XH)))))) :: [])), ((Npos (XO (XO
+    (XI (XI (XO (XI (XI XH)))))))) :: ((Npos (XO (XO (XO (XI (XO
+    XH)))))) :: ((Npos (XO (XO (XI (XO (XI (XI XH))))))) :: ((Npos (XO (XO
+    (XI (XO (XO (XI (XO XH)))))))) :: ((Npos (XO (XO (XI (XO (XI (XO
+    XH))))))) :: ((Npos (XO XH)) :: []))))))), (Npos (XO (XO (XI (XI (XO (XI
+    (XI (XI (XO (XO (XO (XI (XO (XI (XO (XO (XO (XO (XI (XO (XI (XI (XI (XO
+    (XO (XO (XI (XO (XO (XI (XO
+    XH))))))))))))))))))))))))))))))))) :: (((((Npos (XO (XO (XO (XO (XI
+    XH)))))) :: ((Npos (XO (XO (XO (XI (XI XH)))))) :: [])), ((Npos (XO (XO
+    (XI (XI (XO (XI (XI XH)))))))) :: ((Npos (XO (XO (XO (XI (XO
+    XH)))))) :: ((Npos (XI (XO (XI (XI (XI (XI (XI XH)))))))) :: ((Npos (XI
+    (XI (XO (XI (XO (XO (XO XH)))))))) :: ((Npos (XO (XO (XI (XO (XI (XO
+    XH))))))) :: ((Npos (XO XH)) :: []))))))), (Npos (XO (XO (XI (XI (XO (XI
+    (XI (XI (XO (XO (XO (XI (XO (XI (XO (XO (XI (XO (XI (XI (XI (XI (XI (XI
+    (XI (XI (XO (XI (XO (XO (XO
+    XH))))))))))))))))))))))))))))))))) :: (((((Npos (XI (XO (XO (XO (XI
+    XH)))))) :: ((Npos (XO (XO (XO (XO (XI XH)))))) :: [])), ((Npos (XO (XO
+    (XI (XI (XO (XI (XI XH)))))))) :: ((Npos (XO (XO (XO (XI (XO
+    XH)))))) :: ((Npos (XO (XO (XO (XI (XI (XI (XI XH)))))))) :: ((Npos (XI
+    (XI (XO (XI (XO (XO XH))))))) :: ((Npos (XO (XO (XI (XO (XI (XO
+    XH))))))) :: ((Npos (XO XH)) :: []))))))), (Npos (XO (XO (XI (XI (XO (XI
+    (XI (XI (XO (XO (XO (XI (XO (XI (XO (XO (XO (XO (XO (XI (XI (XI (XI (XI
+    (XI (XI (XO (XI (XO (XO XH)))))))))))))))))))))))))))))))) :: (((((Npos
+    (XI (XO (XO (XO (XI XH)))))) :: ((Npos (XI (XO (XO (XO (XI
+    XH)))))) :: [])), ((Npos (XO (XO (XI (XI (XO (XI (XI XH)))))))) :: ((Npos
+    (XO (XO (XO (XI (XO XH)))))) :: ((Npos (XI (XO (XI (XO (XO (XO (XI
+    XH)))))))) :: ((Npos (XI (XI (XO (XI (XI (XI (XO XH)))))))) :: ((Npos (XO
+    (XO (XI (XO (XI (XO XH))))))) :: ((Npos (XO XH)) :: []))))))), (Npos (XO
+    (XO (XI (XI (XO (XI (XI (XI (XO (XO (XO (XI (XO (XI (XO (XO (XI (XO (XI
+    (XO (XO (XO (XI (XI (XI (XI (XO (XI (XI (XI (XO
+    XH))))))))))))))))))))))))))))))))) :: (((((Npos (XI (XO (XO (XO (XI
+    XH)))))) :: ((Npos (XO (XI (XO (XO (XI XH)))))) :: [])), ((Npos (XO (XO
+    (XI (XI (XO (XI (XI XH)))))))) :: ((Npos (XI (XO (XO (XI (XO
+    XH)))))) :: ((Npos (XO (XI (XO (XO (XO XH)))))) :: ((Npos (XO (XI (XI (XI
+    (XO (XO (XI XH)))))))) :: ((Npos (XO (XO (XI (XO (XI (XO
+    XH))))))) :: ((Npos (XO XH)) :: []))))))), (Npos (XO (XO (XI (XI (XO (XI
+    (XI (XI (XI (XO (XO (XI (XO (XI (XO (XO (XO (XI (XO (XO (XO (XI (XO (XO
+    (XO (XI (XI (XI (XO (XO (XI
+    XH))))))))))))))))))))))))))))))))) :: (((((Npos (XI (XO (XO (XO (XI
+    XH)))))) :: ((Npos (XI (XI (XO (XO (XI XH)))))) :: [])), ((Npos (XO (XO
+    (XI (XI (XO (XI (XI XH)))))))) :: ((Npos (XO (XO (XO (XI (XO
+    XH)))))) :: ((Npos (XI (XI (XI (XI (XI (XO (XO XH)))))))) :: ((Npos (XO
+    (XO (XI (XI (XI (XI (XI XH)))))))) :: ((Npos (XO (XO (XI (XO (XI (XO
+    XH))))))) :: ((Npos (XO XH)) :: []))))))), (Npos (XO (XO (XI (XI (XO (XI
+    (XI (XI (XO (XO (XO (XI (XO (XI (XO (XO (XI (XI (XI (XI (XI (XO (XO (XI
+    (XO (XO (XI (XI (XI (XI (XI
+    XH))))))))))))))))))))))))))))))))) :: (((((Npos (XI (XO (XO (XO (XI
+    XH)))))) :: ((Npos (XO (XO (XI (XO (XI XH)))))) :: [])), ((Npos (XO (XO
+    (XI (XI (XO (XI (XI XH)))))))) :: ((Npos (XI (XO (XO (XI (XO
+    XH)))))) :: ((Npos (XO (XO (XI (XI (XO XH)))))) :: ((Npos (XO (XO (XI (XO
+    (XI XH)))))) :: ((Npos (XO (XO (XI (XO (XI (XO XH))))))) :: ((Npos (XO
+    XH)) :: []))))))), (Npos (XO (XO (XI (XI (XO (XI (XI (XI (XI (XO (XO (XI
+    (XO (XI (XO (XO (XO (XO (XI (XI (XO (XI (XO (XO (XO (XO (XI (XO (XI
+    XH))))))))))))))))))))))))))))))) :: (((((Npos (XI (XO (XO (XO (XI
+    XH)))))) :: ((Npos (XI (XO (XI (XO (XI XH)))))) :: [])), ((Npos (XO (XO
+    (XI (XI (XO (XI (XI XH)))))))) :: ((Npos (XO (XO (XO (XI (XO
+    XH)))))) :: ((Npos (XI (XI (XO (XI (XI (XO (XI XH)))))))) :: ((Npos (XO
+    (XO (XI (XI (XI XH)))))) :: ((Npos (XO (XO (XI (XO (XI (XO
+    XH))))))) :: ((Npos (XO XH)) :: []))))))), (Npos (XO (XO (XI (XI (XO (XI
+    (XI (XI (XO (XO (XO (XI (XO (XI (XO (XO (XI (XI (XO (XI (XI (XO (XI (XI
+    (XO (XO (XI (XI (XI XH))))))))))))))))))))))))))))))) :: (((((Npos (XI
+    (XO (XO (XO (XI XH)))))) :: ((Npos (XI (XI (XI (XO (XI XH)))))) :: [])),
+    ((Npos (XO (XO (XI (XI (XO (XI (XI XH)))))))) :: ((Npos (XO (XO (XO (XI
+    (XO XH)))))) :: ((Npos (XI (XO (XO (XI (XI (XO (XO XH)))))))) :: ((Npos
+    (XI (XI (XI (XO (XO XH)))))) :: ((Npos (XO (XO (XI (XO (XI (XO
+    XH))))))) :: ((Npos (XO XH)) :: []))))))), (Npos (XO (XO (XI (XI (XO (XI
+    (XI (XI (XO (XO (XO (XI (XO (XI (XO (XO (XI (XO (XO (XI (XI (XO (XO (XI
+    (XI (XI (XI (XO (XO XH))))))))))))))))))))))))))))))) :: (((((Npos (XI
+    (XO (XO (XO (XI XH)))))) :: ((Npos (XO (XO (XO (XI (XI XH)))))) :: [])),
+    ((Npos (XO (XO (XI (XI (XO (XI (XI XH)))))))) :: ((Npos (XO (XO (XO (XI
+    (XO XH)))))) :: ((Npos (XO (XO (XI (XO (XO (XI (XI XH)))))))) :: ((Npos
+    (XI (XI (XI (XO (XI (XO XH))))))) :: ((Npos (XO (XO (XI (XO (XI (XO
+    XH))))))) :: ((Npos (XO XH)) :: []))))))), (Npos (XO (XO (XI (XI (XO (XI
+    (XI (XI (XO (XO (XO (XI (XO (XI (XO (XO (XO (XO (XI (XO (XO (XI (XI (XI
+    (XI (XI (XI (XO (XI (XO XH)))))))))))))))))))))))))))))))) :: (((((Npos
+    (XI (XO (XO (XO (XI XH)))))) :: ((Npos (XI (XO (XO (XI (XI
+    XH)))))) :: [])), ((Npos (XO (XO (XI (XI (XO (XI (XI XH)))))))) :: ((Npos
+    (XO (XO (XO (XI (XO XH)))))) :: ((Npos (XO (XO (XI (XO (XI (XI
+    XH))))))) :: ((Npos (XI (XO (XI (XI (XO (XI (XO XH)))))))) :: ((Npos (XO
+    (XO (XI (XO (XI (XO XH))))))) :: ((Npos (XO XH)) :: []))))))), (Npos (XO
+    (XO (XI (XI (XO (XI (XI (XI (XO (XO (XO (XI (XO (XI (XO (XO (XO (XO (XI
+    (XO (XI (XI (XI (XO (XI (XO (XI (XI (XO (XI (XO
+    XH))))))))))))))))))))))))))))))))) :: (((((Npos (XO (XI (XO (XO (XI
+    XH)))))) :: ((Npos (XO (XO (XO (XO (XI XH)))))) :: [])), ((Npos (XO (XO
+    (XI (XI (XO (XI (XI XH)))))))) :: ((Npos (XO (XO (XO (XI (XO
+    XH)))))) :: ((Npos (XI (XI (XO (XI (XI (XO (XI XH)))))))) :: ((Npos (XO
+    (XO (XO (XO (XI (XO XH))))))) :: ((Npos (XO (XO (XI (XO (XI (XO
+    XH))))))) :: ((Npos (XO XH)) :: []))))))), (Npos (XO (XO (XI (XI (XO (XI
+    (XI (XI (XO (XO (XO (XI (XO (XI (XO (XO (XI (XI (XO (XI (XI (XO (XI (XI
+    (XO (XO (XO (XO (XI (XO XH)))))))))))))))))))))))))))))))) :: (((((Npos
+    (XO (XI (XO (XO (XI XH)))))) :: ((Npos (XI (XO (XO (XO (XI
+    XH)))))) :: [])), ((Npos (XO (XO (XI (XI (XO (XI (XI XH)))))))) :: ((Npos
+    (XO (XO (XO (XI (XO XH)))))) :: ((Npos (XI (XO (XI (XI (XI (XO (XI
+    XH)))))))) :: ((Npos (XO (XI (XO (XI XH))))) :: ((Npos (XO (XO (XI (XO
+    (XI (XO XH))))))) :: ((Npos (XO XH)) :: []))))))), (Npos (XO (XO (XI (XI
+    (XO (XI (XI (XI (XO (XO (XO (XI (XO (XI (XO (XO (XI (XO (XI (XI (XI (XO
+    (XI (XI (XO (XI (XO (XI XH)))))))))))))))))))))))))))))) :: (((((Npos (XO
+    (XI (XO (XO (XI XH)))))) :: ((Npos (XO (XI (XO (XO (XI XH)))))) :: [])),
+    ((Npos (XO (XO (XI (XI (XO (XI (XI XH)))))))) :: ((Npos (XO (XO (XO (XI
+    (XO XH)))))) :: ((Npos (XI (XO (XO (XO (XI (XI XH))))))) :: ((Npos (XO
+    (XI (XI (XO (XO (XO XH))))))) :: ((Npos (XO (XO (XI (XO (XI (XO
+    XH))))))) :: ((Npos (XO XH)) :: []))))))), (Npos (XO (XO (XI (XI (XO (XI
+    (XI (XI (XO (XO (XO (XI (XO (XI (XO (XO (XI (XO (XO (XO (XI (XI (XI (XO
+    (XO (XI (XI (XO (XO (XO XH)))))))))))))))))))))))))))))))) :: (((((Npos
+    (XO (XI (XO (XO (XI XH)))))) :: ((Npos (XI (XI (XO (XO (XI
+    XH)))))) :: [])), ((Npos (XO (XO (XI (XI (XO (XI (XI XH)))))))) :: ((Npos
+    (XI (XO (XO (XI (XO XH)))))) :: ((Npos (XI (XI (XI (XO (XO
+    XH)))))) :: ((Npos (XI (XO (XI (XI (XI (XI (XI XH)))))))) :: ((Npos (XO
+    (XO (XI (XO (XI (XO XH))))))) :: ((Npos (XO XH)) :: []))))))), (Npos (XO
+    (XO (XI (XI (XO (XI (XI (XI (XI (XO (XO (XI (XO (XI (XO (XO (XI (XI (XI
+    (XO (XO (XI (XO (XO (XI (XO (XI (XI (XI (XI (XI
+    XH))))))))))))))))))))))))))))))))) :: (((((Npos (XO (XI (XO (XO (XI
+    XH)))))) :: ((Npos (XO (XO (XI (XO (XI XH)))))) :: [])), ((Npos (XO (XO
+    (XI (XI (XO (XI (XI XH)))))))) :: ((Npos (XO (XO (XO (XI (XO
+    XH)))))) :: ((Npos (XO (XI (XO (XO (XO (XI (XI XH)))))))) :: ((Npos (XI
+    (XI (XI (XI (XI (XI (XO XH)))))))) :: ((Npos (XO (XO (XI (XO (XI (XO
+    XH))))))) :: ((Npos (XO XH)) :: []))))))), (Npos (XO (XO (XI (XI (XO (XI
+    (XI (XI (XO (XO (XO (XI (XO (XI (XO (XO (XO (XI (XO (XO (XO (XI (XI (XI
+    (XI (XI (XI (XI (XI (XI (XO
+    XH))))))))))))))))))))))))))))))))) :: (((((Npos (XO (XI (XO (XO (XI
+    XH)))))) :: ((Npos (XI (XO (XI (XO (XI XH)))))) :: [])), ((Npos (XO (XO
+    (XI (XI (XO (XI (XI XH)))))))) :: ((Npos (XO (XO (XO (XI (XO
+    XH)))))) :: ((Npos (XO (XO (XI (XO (XI (XO (XI XH)))))))) :: ((Npos (XO
+    (XO (XO (XO (XI (XI (XO XH)))))))) :: ((Npos (XO (XO (XI (XO (XI (XO
+    XH))))))) :: ((Npos (XO XH)) :: []))))))), (Npos (XO (XO (XI (XI (XO (XI
+    (XI (XI (XO (XO (XO (XI (XO (XI (XO (XO (XO (XO (XI (XO (XI (XO (XI (XI
+    (XO (XO (XO (XO (XI (XI (XO
+    XH))))))))))))))))))))))))))))))))) :: (((((Npos (XO (XI (XO (XO (XI
+    XH)))))) :: ((Npos (XO (XI (XI (XO (XI XH)))))) :: [])), ((Npos (XO (XO
+    (XI (XI (XO (XI (XI XH)))))))) :: ((Npos (XO (XO (XO (XI (XO
+    XH)))))) :: ((Npos (XO (XO (XI (XI (XI (XI (XO XH)))))))) :: ((Npos (XI
+    (XI (XI (XI XH))))) :: ((Npos (XO (XO (XI (XO (XI (XO XH))))))) :: ((Npos
+    (XO XH)) :: []))))))), (Npos (XO (XO (XI (XI (XO (XI (XI (XI (XO (XO (XO
+    (XI (XO (XI (XO (XO (XO (XO (XI (XI (XI (XI (XO (XI (XI (XI (XI (XI
+    XH)))))))))))))))))))))))))))))) :: (((((Npos (XO (XI (XO (XO (XI
+    XH)))))) :: ((Npos (XI (XI (XI (XO (XI XH)))))) :: [])), ((Npos (XO (XO
+    (XI (XI (XO (XI (XI XH)))))))) :: ((Npos (XO (XO (XO (XI (XO
+    XH)))))) :: ((Npos (XO (XO (XI (XI (XI (XI (XI XH)))))))) :: ((Npos (XI
+    (XI (XI (XI (XO (XI (XI XH)))))))) :: ((Npos (XO (XO (XI (XO (XI (XO
+    XH))))))) :: ((Npos (XO XH)) :: []))))))), (Npos (XO (XO (XI (XI (XO (XI
+    (XI (XI (XO (XO (XO (XI (XO (XI (XO (XO (XO (XO (XI (XI (XI (XI (XI (XI
+    (XI (XI (XI (XI (XO (XI (XI
+    XH))))))))))))))))))))))))))))))))) :: (((((Npos (XO (XI (XO (XO (XI
+    XH)))))) :: ((Npos (XI (XO (XO (XI (XI XH)))))) :: [])), ((Npos (XO (XO
+    (XI (XI (XO (XI (XI XH)))))))) :: ((Npos (XO (XO (XO (XI (XO
+    XH)))))) :: ((Npos (XO (XO (XI (XI (XO (XI XH))))))) :: ((Npos (XI (XO
+    (XI (XI (XI (XI (XO XH)))))))) :: ((Npos (XO (XO (XI (XO (XI (XO
+    XH))))))) :: ((Npos (XO XH)) :: []))))))), (Npos (XO (XO (XI (XI (XO (XI
+    (XI (XI (XO (XO (XO (XI (XO (XI (XO (XO (XO (XO (XI (XI (XO (XI (XI (XO
+    (XI (XO (XI (XI (XI (XI (XO
+    XH))))))))))))))))))))))))))))))))) :: (((((Npos (XI (XI (XO (XO (XI
+    XH)))))) :: ((Npos (XI (XI (XO (XO (XI XH)))))) :: [])), ((Npos (XO (XO
+    (XI (XI (XO (XI (XI XH)))))))) :: ((Npos (XO (XO (XO (XI (XO
+    XH)))))) :: ((Npos (XI (XI (XI (XI (XI (XI (XI XH)))))))) :: ((Npos (XO
+    (XI (XI (XO (XI (XO (XO XH)))))))) :: ((Npos (XO (XO (XI (XO (XI (XO
+    XH))))))) :: ((Npos (XO XH)) :: []))))))), (Npos (XO (XO (XI (XI (XO (XI
+    (XI (XI (XO (XO (XO (XI (XO (XI (XO (XO (XI (XI (XI (XI (XI (XI (XI (XI
+    (XO (XI (XI (XO (XI (XO (XO
+    XH))))))))))))))))))))))))))))))))) :: (((((Npos (XI (XI (XO (XO (XI
+    XH)))))) :: ((Npos (XO (XO (XI (XO (XI XH)))))) :: [])), ((Npos (XO (XO
+    (XI (XI (XO (XI (XI XH)))))))) :: ((Npos (XO (XO (XO (XI (XO
+    XH)))))) :: ((Npos (XO (XI (XO (XO (XO (XI (XI XH)))))))) :: ((Npos (XO
+    (XO (XI (XO (XI XH)))))) :: ((Npos (XO (XO (XI (XO (XI (XO
+    XH))))))) :: ((Npos (XO XH)) :: []))))))), (Npos (XO (XO (XI (XI (XO (XI
+    (XI (XI (XO (XO (XO (XI (XO (XI (XO (XO (XO (XI (XO (XO (XO (XI (XI (XI
+    (XO (XO (XI (XO (XI XH))))))))))))))))))))))))))))))) :: (((((Npos (XI
+    (XI (XO (XO (XI XH)))))) :: ((Npos (XI (XO (XI (XO (XI XH)))))) :: [])),
+    ((Npos (XO (XO (XI (XI (XO (XI (XI XH)))))))) :: ((Npos (XO (XO (XO (XI
+    (XO XH)))))) :: ((Npos (XI (XO (XO (XI (XO (XO (XO XH)))))))) :: ((Npos
+    (XO (XI (XI (XI XH))))) :: ((Npos (XO (XO (XI (XO (XI (XO
+    XH))))))) :: ((Npos (XO XH)) :: []))))))), (Npos (XO (XO (XI (XI (XO (XI
+    (XI (XI (XO (XO (XO (XI (XO (XI (XO (XO (XI (XO (XO (XI (XO (XO (XO (XI
+    (XO (XI (XI (XI XH)))))))))))))))))))))))))))))) :: (((((Npos (XI (XI (XO
+    (XO (XI XH)))))) :: ((Npos (XO (XI (XI (XO (XI XH)))))) :: [])), ((Npos
+    (XO (XO (XI (XI (XO (XI (XI XH)))))))) :: ((Npos (XO (XO (XO (XI (XO
+    XH)))))) :: ((Npos (XI (XO (XI (XO (XO (XI (XO XH)))))))) :: ((Npos (XI
+    (XO (XO (XI (XI (XO (XO XH)))))))) :: ((Npos (XO (XO (XI (XO (XI (XO
+    XH))))))) :: ((Npos (XO XH)) :: []))))))), (Npos (XO (XO (XI (XI (XO (XI
+    (XI (XI (XO (XO (XO (XI (XO (XI (XO (XO (XI (XO (XI (XO (XO (XI (XO (XI
+    (XI (XO (XO (XI (XI (XO (XO
+    XH))))))))))))))))))))))))))))))))) :: (((((Npos (XI (XI (XO (XO (XI
+    XH)))))) :: ((Npos (XI (XI (XI (XO (XI XH)))))) :: [])), ((Npos (XO (XO
+    (XI (XI (XO (XI (XI XH)))))))) :: ((Npos (XI (XO (XO (XI (XO
+    XH)))))) :: ((Npos (XI (XI (XO (XI (XO XH)))))) :: ((Npos (XI (XO (XI (XI
+    (XI XH)))))) :: ((Npos (XO (XO (XI (XO (XI (XO XH))))))) :: ((Npos (XO
+    XH)) :: []))))))), (Npos (XO (XO (XI (XI (XO (XI (XI (XI (XI (XO (XO (XI
+    (XO (XI (XO (XO (XI (XI (XO (XI (XO (XI (XO (XO (XI (XO (XI (XI (XI
+    XH))))))))))))))))))))))))))))))) :: (((((Npos (XI (XI (XO (XO (XI
+    XH)))))) :: ((Npos (XI (XO (XO (XI (XI XH)))))) :: [])), ((Npos (XO (XO
+    (XI (XI (XO (XI (XI XH)))))))) :: ((Npos (XI (XO (XO (XI (XO
+    XH)))))) :: ((Npos (XI (XI (XO (XI (XO XH)))))) :: ((Npos (XI (XO (XI (XI
+    (XI (XI (XI XH)))))))) :: ((Npos (XO (XO (XI (XO (XI (XO
+    XH))))))) :: ((Npos (XO XH)) :: []))))))), (Npos (XO (XO (XI (XI (XO (XI
+    (XI (XI (XI (XO (XO (XI (XO (XI (XO (XO (XI (XI (XO (XI (XO (XI (XO (XO
+    (XI (XO (XI (XI (XI (XI (XI
+    XH))))))))))))))))))))))))))))))))) :: (((((Npos (XO (XO (XI (XO (XI
+    XH)))))) :: ((Npos (XO (XO (XO (XO (XI XH)))))) :: [])), ((Npos (XO (XO
+    (XI (XI (XO (XI (XI XH)))))))) :: ((Npos (XO (XO (XO (XI (XO
+    XH)))))) :: ((Npos (XO (XI (XI (XO (XO (XO (XI XH)))))))) :: ((Npos (XI
+    (XO (XO (XO (XI (XO XH))))))) :: ((Npos (XO (XO (XI (XO (XI (XO
+    XH))))))) :: ((Npos (XO XH)) :: []))))))), (Npos (XO (XO (XI (XI (XO (XI
+    (XI (XI (XO (XO (XO (XI (XO (XI (XO (XO (XO (XI (XI (XO (XO (XO (XI (XI
+    (XI (XO (XO (XO (XI (XO XH)))))))))))))))))))))))))))))))) :: (((((Npos
+    (XO (XO (XI (XO (XI XH)))))) :: ((Npos (XI (XO (XO (XO (XI
+    XH)))))) :: [])), ((Npos (XO (XO (XI (XI (XO (XI (XI XH)))))))) :: ((Npos
+    (XO (XO (XO (XI (XO XH)))))) :: ((Npos (XI (XI (XO (XI (XI (XI (XO
+    XH)))))))) :: ((Npos (XO (XI (XI (XO (XO (XO (XI XH)))))))) :: ((Npos (XO
+    (XO (XI (XO (XI (XO XH))))))) :: ((Npos (XO XH)) :: []))))))), (Npos (XO
+    (XO (XI (XI (XO (XI (XI (XI (XO (XO (XO (XI (XO (XI (XO (XO (XI (XI (XO
+    (XI (XI (XI (XO (XI (XO (XI (XI (XO (XO (XO (XI
+    XH))))))))))))))))))))))))))))))))) :: (((((Npos (XO (XO (XI (XO (XI
+    XH)))))) :: ((Npos (XO (XI (XO (XO (XI XH)))))) :: [])), ((Npos (XO (XO
+    (XI (XI (XO (XI (XI XH)))))))) :: ((Npos (XI (XO (XO (XI (XO
+    XH)))))) :: ((Npos (XI (XO (XO (XI (XO XH)))))) :: ((Npos (XO (XO (XI (XI
+    (XI (XI (XO XH)))))))) :: ((Npos (XO (XO (XI (XO (XI (XO
+    XH))))))) :: ((Npos (XO XH)) :: []))))))), (Npos (XO (XO (XI (XI (XO (XI
+    (XI (XI (XI (XO (XO (XI (XO (XI (XO (XO (XI (XO (XO (XI (XO (XI (XO (XO
+    (XO (XO (XI (XI (XI (XI (XO
+    XH))))))))))))))))))))))))))))))))) :: (((((Npos (XO (XO (XI (XO (XI
+    XH)))))) :: ((Npos (XO (XO (XI (XO (XI XH)))))) :: [])), ((Npos (XO (XO
+    (XI (XI (XO (XI (XI XH)))))))) :: ((Npos (XO (XO (XO (XI (XO
+    XH)))))) :: ((Npos (XO (XI (XO (XI (XI (XO (XI XH)))))))) :: ((Npos (XO
+    (XI (XI (XO (XO (XO (XI XH)))))))) :: ((Npos (XO (XO (XI (XO (XI (XO
+    XH))))))) :: ((Npos (XO XH)) :: []))))))), (Npos (XO (XO (XI (XI (XO (XI
+    (XI (XI (XO (XO (XO (XI (XO (XI (XO (XO (XO (XI (XO (XI (XI (XO (XI (XI
+    (XO (XI (XI (XO (XO (XO (XI
+    XH))))))))))))))))))))))))))))))))) :: (((((Npos (XO (XO (XI (XO (XI
+    XH)))))) :: ((Npos (XI (XO (XI (XO (XI XH)))))) :: [])), ((Npos (XO (XO
+    (XI (XI (XO (XI (XI XH)))))))) :: ((Npos (XI (XO (XO (XI (XO
+    XH)))))) :: ((Npos (XO (XO (XO (XI XH))))) :: ((Npos (XI (XI (XI (XI (XO
+    (XO (XO XH)))))))) :: ((Npos (XO (XO (XI (XO (XI (XO XH))))))) :: ((Npos
+    (XO XH)) :: []))))))), (Npos (XO (XO (XI (XI (XO (XI (XI (XI (XI (XO (XO
+    (XI (XO (XI (XO (XO (XO (XO (XO (XI (XI (XO (XO (XO (XI (XI (XI (XI (XO
+    (XO (XO XH))))))))))))))))))))))))))))))))) :: (((((Npos (XO (XO (XI (XO
+    (XI XH)))))) :: ((Npos (XO (XI (XI (XO (XI XH)))))) :: [])), ((Npos (XO
+    (XO (XI (XI (XO (XI (XI XH)))))))) :: ((Npos (XO (XO (XO (XI (XO
+    XH)))))) :: ((Npos (XO (XO (XO (XO (XO (XI (XO XH)))))))) :: ((Npos (XO
+    (XO (XO (XO (XO (XO XH))))))) :: ((Npos (XO (XO (XI (XO (XI (XO
+    XH))))))) :: ((Npos (XO XH)) :: []))))))), (Npos (XO (XO (XI (XI (XO (XI
+    (XI (XI (XO (XO (XO (XI (XO (XI (XO (XO (XO (XO (XO (XO (XO (XI (XO (XI
+    (XO (XO (XO (XO (XO (XO XH)))))))))))))))))))))))))))))))) :: (((((Npos
+    (XO (XO (XI (XO (XI XH)))))) :: ((Npos (XI (XO (XO (XI (XI
+    XH)))))) :: [])), ((Npos (XO (XO (XI (XI (XO (XI (XI XH)))))))) :: ((Npos
+    (XO (XO (XO (XI (XO XH)))))) :: ((Npos (XO (XO (XI (XI (XI (XO (XO
+    XH)))))))) :: ((Npos (XI (XI (XI (XO (XI (XO XH))))))) :: ((Npos (XO (XO
+    (XI (XO (XI (XO XH))))))) :: ((Npos (XO XH)) :: []))))))), (Npos (XO (XO
+    (XI (XI (XO (XI (XI (XI (XO (XO (XO (XI (XO (XI (XO (XO (XO (XO (XI (XI
+    (XI (XO (XO (XI (XI (XI (XI (XO (XI (XO
+    XH)))))))))))))))))))))))))))))))) :: (((((Npos (XI (XO (XI (XO (XI
+    XH)))))) :: ((Npos (XO (XI (XO (XO (XI XH)))))) :: [])), ((Npos (XO (XO
+    (XI (XI (XO (XI (XI XH)))))))) :: ((Npos (XI (XO (XO (XI (XO
+    XH)))))) :: ((Npos (XO (XO (XO (XI XH))))) :: ((Npos (XO (XO (XI (XI
+    XH))))) :: ((Npos (XO (XO (XI (XO (XI (XO XH))))))) :: ((Npos (XO
+    XH)) :: []))))))), (Npos (XO (XO (XI (XI (XO (XI (XI (XI (XI (XO (XO (XI
+    (XO (XI (XO (XO (XO (XO (XO (XI (XI (XO (XO (XO (XO (XO (XI (XI
+    XH)))))))))))))))))))))))))))))) :: (((((Npos (XI (XO (XI (XO (XI
+    XH)))))) :: ((Npos (XI (XI (XO (XO (XI XH)))))) :: [])), ((Npos (XO (XO
+    (XI (XI (XO (XI (XI XH)))))))) :: ((Npos (XO (XO (XO (XI (XO
+    XH)))))) :: ((Npos (XI (XI (XI (XO (XI (XI (XO XH)))))))) :: ((Npos (XO
+    (XO (XO (XO (XI (XO (XI XH)))))))) :: ((Npos (XO (XO (XI (XO (XI (XO
+    XH))))))) :: ((Npos (XO XH)) :: []))))))), (Npos (XO (XO (XI (XI (XO (XI
+    (XI (XI (XO (XO (XO (XI (XO (XI (XO (XO (XI (XI (XI (XO (XI (XI (XO (XI
+    (XO (XO (XO (XO (XI (XO (XI
+    XH))))))))))))))))))))))))))))))))) :: (((((Npos (XI (XO (XI (XO (XI
+    XH)))))) :: ((Npos (XO (XO (XI (XO (XI XH)))))) :: [])), ((Npos (XO (XO
+    (XI (XI (XO (XI (XI XH)))))))) :: ((Npos (XO (XO (XO (XI (XO
+    XH)))))) :: ((Npos (XI (XO (XO (XO (XI (XI XH))))))) :: ((Npos (XO (XI
+    (XI (XI (XI XH)))))) :: ((Npos (XO (XO (XI (XO (XI (XO
+    XH))))))) :: ((Npos (XO XH)) :: []))))))), (Npos (XO (XO (XI (XI (XO (XI
+    (XI (XI (XO (XO (XO (XI (XO (XI (XO (XO (XI (XO (XO (XO (XI (XI (XI (XO
+    (XO (XI (XI (XI (XI XH))))))))))))))))))))))))))))))) :: (((((Npos (XI
+    (XO (XI (XO (XI XH)))))) :: ((Npos (XI (XO (XI (XO (XI XH)))))) :: [])),
+    ((Npos (XO (XO (XI (XI (XO (XI (XI XH)))))))) :: ((Npos (XO (XO (XO (XI
+    (XO XH)))))) :: ((Npos (XI (XI (XI (XI (XI (XI (XI XH)))))))) :: ((Npos
+    (XO (XO (XI (XI (XO (XI (XO XH)))))))) :: ((Npos (XO (XO (XI (XO (XI (XO
+    XH))))))) :: ((Npos (XO XH)) :: []))))))), (Npos (XO (XO (XI (XI (XO (XI
+    (XI (XI (XO (XO (XO (XI (XO (XI (XO (XO (XI (XI (XI (XI (XI (XI (XI (XI
+    (XO (XO (XI (XI (XO (XI (XO
+    XH))))))))))))))))))))))))))))))))) :: (((((Npos (XI (XO (XI (XO (XI
+    XH)))))) :: ((Npos (XO (XI (XI (XO (XI XH)))))) :: [])), ((Npos (XO (XO
+    (XI (XI (XO (XI (XI XH)))))))) :: ((Npos (XO (XO (XO (XI (XO
+    XH)))))) :: ((Npos (XI (XI (XI (XO (XO (XO (XO XH)))))))) :: ((Npos (XO
+    (XO (XO (XI (XI (XO (XO XH)))))))) :: ((Npos (XO (XO (XI (XO (XI (XO
+    XH))))))) :: ((Npos (XO XH)) :: []))))))), (Npos (XO (XO (XI (XI (XO (XI
+    (XI (XI (XO (XO (XO (XI (XO (XI (XO (XO (XI (XI (XI (XO (XO (XO (XO (XI
+    (XO (XO (XO (XI (XI (XO (XO
+    XH))))))))))))))))))))))))))))))))) :: (((((Npos (XI (XO (XI (XO (XI
+    XH)))))) :: ((Npos (XI (XI (XI (XO (XI XH)))))) :: [])), ((Npos (XO (XO
+    (XI (XI (XO (XI (XI XH)))))))) :: ((Npos (XO (XO (XO (XI (XO
+    XH)))))) :: ((Npos (XO (XO (XO (XO (XO (XO (XO XH)))))))) :: ((Npos (XI
+    (XO (XI (XI (XO XH)))))) :: ((Npos (XO (XO (XI (XO (XI (XO
+    XH))))))) :: ((Npos (XO XH)) :: []))))))), (Npos (XO (XO (XI (XI (XO (XI
+    (XI (XI (XO (XO (XO (XI (XO (XI (XO (XO (XO (XO (XO (XO (XO (XO (XO (XI
+    (XI (XO (XI (XI (XO XH))))))))))))))))))))))))))))))) :: (((((Npos (XI
+    (XO (XI (XO (XI XH)))))) :: ((Npos (XO (XO (XO (XI (XI XH)))))) :: [])),
+    ((Npos (XO (XO (XI (XI (XO (XI (XI XH)))))))) :: ((Npos (XI (XO (XO (XI
+    (XO XH)))))) :: ((Npos (XO (XI (XO (XI (XO XH)))))) :: ((Npos (XO (XI (XI
+    (XO (XO (XO XH))))))) :: ((Npos (XO (XO (XI (XO (XI (XO
+    XH))))))) :: ((Npos (XO XH)) :: []))))))), (Npos (XO (XO (XI (XI (XO (XI
+    (XI (XI (XI (XO (XO (XI (XO (XI (XO (XO (XO (XI (XO (XI (XO (XI (XO (XO
+    (XO (XI (XI (XO (XO (XO XH)))))))))))))))))))))))))))))))) :: (((((Npos
+    (XO (XI (XI (XO (XI XH)))))) :: ((Npos (XO (XO (XO (XO (XI
+    XH)))))) :: [])), ((Npos (XO (XO (XI (XI (XO (XI (XI XH)))))))) :: ((Npos
+    (XO (XO (XO (XI (XO XH)))))) :: ((Npos (XI (XI (XO (XO (XI (XI (XI
+    XH)))))))) :: ((Npos (XO (XO (XI (XO (XO XH)))))) :: ((Npos (XO (XO (XI
+    (XO (XI (XO XH))))))) :: ((Npos (XO XH)) :: []))))))), (Npos (XO (XO (XI
+    (XI (XO (XI (XI (XI (XO (XO (XO (XI (XO (XI (XO (XO (XI (XI (XO (XO (XI
+    (XI (XI (XI (XO (XO (XI (XO (XO
+    XH))))))))))))))))))))))))))))))) :: (((((Npos (XO (XI (XI (XO (XI
+    XH)))))) :: ((Npos (XI (XI (XO (XO (XI XH)))))) :: [])), ((Npos (XO (XO
+    (XI (XI (XO (XI (XI XH)))))))) :: ((Npos (XO (XO (XO (XI (XO
+    XH)))))) :: ((Npos (XO (XO (XI (XI (XO (XI XH))))))) :: ((Npos (XO (XI
+    (XO (XI (XO (XI (XI XH)))))))) :: ((Npos (XO (XO (XI (XO (XI (XO
+    XH))))))) :: ((Npos (XO XH)) :: []))))))), (Npos (XO (XO (XI (XI (XO (XI
+    (XI (XI (XO (XO (XO (XI (XO (XI (XO (XO (XO (XO (XI (XI (XO (XI (XI (XO
+    (XO (XI (XO (XI (XO (XI (XI
+    XH))))))))))))))))))))))))))))))))) :: (((((Npos (XO (XI (XI (XO (XI
+    XH)))))) :: ((Npos (XO (XO (XI (XO (XI XH)))))) :: [])), ((Npos (XO (XO
+    (XI (XI (XO (XI (XI XH)))))))) :: ((Npos (XO (XO (XO (XI (XO
+    XH)))))) :: ((Npos (XO (XI (XI (XI (XO (XI XH))))))) :: ((Npos (XO (XO
+    (XI (XO XH))))) :: ((Npos (XO (XO (XI (XO (XI (XO XH))))))) :: ((Npos (XO
+    XH)) :: []))))))), (Npos (XO (XO (XI (XI (XO (XI (XI (XI (XO (XO (XO (XI
+    (XO (XI (XO (XO (XO (XI (XI (XI (XO (XI (XI (XO (XO (XO (XI (XO
+    XH)))))))))))))))))))))))))))))) :: (((((Npos (XO (XI (XI (XO (XI
+    XH)))))) :: ((Npos (XI (XO (XI (XO (XI XH)))))) :: [])), ((Npos (XO (XO
+    (XI (XI (XO (XI (XI XH)))))))) :: ((Npos (XO (XO (XO (XI (XO
+    XH)))))) :: ((Npos (XI (XI (XI (XO (XI (XO (XI XH)))))))) :: ((Npos (XI
+    (XI (XI XH)))) :: ((Npos (XO (XO (XI (XO (XI (XO XH))))))) :: ((Npos (XO
+    XH)) :: []))))))), (Npos (XO (XO (XI (XI (XO (XI (XI (XI (XO (XO (XO (XI
+    (XO (XI (XO (XO (XI (XI (XI (XO (XI (XO (XI (XI (XI (XI (XI
+    XH))))))))))))))))))))))))))))) :: (((((Npos (XO (XI (XI (XO (XI
+    XH)))))) :: ((Npos (XO (XI (XI (XO (XI XH)))))) :: [])), ((Npos (XO (XO
+    (XI (XI (XO (XI (XI XH)))))))) :: ((Npos (XO (XO (XO (XI (XO
+    XH)))))) :: ((Npos (XI (XO (XI (XO (XO (XO (XI XH)))))))) :: ((Npos (XI
+    (XI (XI (XO (XO (XO (XI XH)))))))) :: ((Npos (XO (XO (XI (XO (XI (XO
+    XH))))))) :: ((Npos (XO XH)) :: []))))))), (Npos (XO (XO (XI (XI (XO (XI
+    (XI (XI (XO (XO (XO (XI (XO (XI (XO (XO (XI (XO (XI (XO (XO (XO (XI (XI
+    (XI (XI (XI (XO (XO (XO (XI
+    XH))))))))))))))))))))))))))))))))) :: (((((Npos (XO (XI (XI (XO (XI
+    XH)))))) :: ((Npos (XI (XI (XI (XO (XI XH)))))) :: [])), ((Npos (XO (XO
+    (XI (XI (XO (XI (XI XH)))))))) :: ((Npos (XO (XO (XO (XI (XO
+    XH)))))) :: ((Npos (XI (XI (XI (XO (XI (XI (XO XH)))))))) :: ((Npos (XO
+    (XI (XI (XO (XO XH)))))) :: ((Npos (XO (XO (XI (XO (XI (XO
+    XH))))))) :: ((Npos (XO XH)) :: []))))))), (Npos (XO (XO (XI (XI (XO (XI
+    (XI (XI (XO (XO (XO (XI (XO (XI (XO (XO (XI (XI (XI (XO (XI (XI (XO (XI
+    (XO (XI (XI (XO (XO XH))))))))))))))))))))))))))))))) :: (((((Npos (XO
+    (XI (XI (XO (XI XH)))))) :: ((Npos (XO (XO (XO (XI (XI XH)))))) :: [])),
+    ((Npos (XO (XO (XI (XI (XO (XI (XI XH)))))))) :: ((Npos (XO (XO (XO (XI
+    (XO XH)))))) :: ((Npos (XI (XI (XO (XO (XI (XO (XI XH)))))))) :: ((Npos
+    (XI (XI (XO (XI (XI (XO XH))))))) :: ((Npos (XO (XO (XI (XO (XI (XO
+    XH))))))) :: ((Npos (XO XH)) :: []))))))), (Npos (XO (XO (XI (XI (XO (XI
+    (XI (XI (XO (XO (XO (XI (XO (XI (XO (XO (XI (XI (XO (XO (XI (XO (XI (XI
+    (XI (XI (XO (XI (XI (XO XH)))))))))))))))))))))))))))))))) :: (((((Npos
+    (XO (XI (XI (XO (XI XH)))))) :: ((Npos (XI (XO (XO (XI (XI
+    XH)))))) :: [])), ((Npos (XO (XO (XI (XI (XO (XI (XI XH)))))))) :: ((Npos
+    (XO (XO (XO (XI (XO XH)))))) :: ((Npos (XO (XO (XO (XO (XO (XI (XI
+    XH)))))))) :: ((Npos (XI (XO (XO (XI (XI (XI (XI XH)))))))) :: ((Npos (XO
+    (XO (XI (XO (XI (XO XH))))))) :: ((Npos (XO XH)) :: []))))))), (Npos (XO
+    (XO (XI (XI (XO (XI (XI (XI (XO (XO (XO (XI (XO (XI (XO (XO (XO (XO (XO
+    (XO (XO (XI (XI (XI (XI (XO (XO (XI (XI (XI (XI
+    XH))))))))))))))))))))))))))))))))) :: (((((Npos (XI (XI (XI (XO (XI
+    XH)))))) :: ((Npos (XO (XO (XO (XO (XI XH)))))) :: [])), ((Npos (XO (XO
+    (XI (XI (XO (XI (XI XH)))))))) :: ((Npos (XO (XO (XO (XI (XO
+    XH)))))) :: ((Npos (XO (XO (XO (XI (XI (XI (XI XH)))))))) :: ((Npos (XI
+    (XI (XO (XO (XO (XI XH))))))) :: ((Npos (XO (XO (XI (XO (XI (XO
+    XH))))))) :: ((Npos (XO XH)) :: []))))))), (Npos (XO (XO (XI (XI (XO (XI
+    (XI (XI (XO (XO (XO (XI (XO (XI (XO (XO (XO (XO (XO (XI (XI (XI (XI (XI
+    (XI (XI (XO (XO (XO (XI XH)))))))))))))))))))))))))))))))) :: (((((Npos
+    (XI (XI (XI (XO (XI XH)))))) :: ((Npos (XI (XO (XO (XO (XI
+    XH)))))) :: [])), ((Npos (XO (XO (XI (XI (XO (XI (XI XH)))))))) :: ((Npos
+    (XO (XO (XO (XI (XO XH)))))) :: ((Npos (XI (XO (XO (XO (XO (XO (XO
+    XH)))))))) :: ((Npos (XO (XO (XO (XO XH))))) :: ((Npos (XO (XO (XI (XO
+    (XI (XO XH))))))) :: ((Npos (XO XH)) :: []))))))), (Npos (XO (XO (XI (XI
+    (XO (XI (XI (XI (XO (XO (XO (XI (XO (XI (XO (XO (XI (XO (XO (XO (XO (XO
+    (XO (XI (XO (XO (XO (XO XH)))))))))))))))))))))))))))))) :: (((((Npos (XI
+    (XI (XI (XO (XI XH)))))) :: ((Npos (XO (XI (XO (XO (XI XH)))))) :: [])),
+    ((Npos (XO (XO (XI (XI (XO (XI (XI XH)))))))) :: ((Npos (XO (XO (XO (XI
+    (XO XH)))))) :: ((Npos (XI (XO (XO (XO (XI (XI (XI XH)))))))) :: ((Npos
+    (XI (XO (XO (XI (XI (XI (XI XH)))))))) :: ((Npos (XO (XO (XI (XO (XI (XO
+    XH))))))) :: ((Npos (XO XH)) :: []))))))), (Npos (XO (XO (XI (XI (XO (XI
+    (XI (XI (XO (XO (XO (XI (XO (XI (XO (XO (XI (XO (XO (XO (XI (XI (XI (XI
+    (XI (XO (XO (XI (XI (XI (XI
+    XH))))))))))))))))))))))))))))))))) :: (((((Npos (XI (XI (XI (XO (XI
+    XH)))))) :: ((Npos (XI (XI (XO (XO (XI XH)))))) :: [])), ((Npos (XO (XO
+    (XI (XI (XO (XI (XI XH)))))))) :: ((Npos (XO (XO (XO (XI (XO
+    XH)))))) :: ((Npos (XI (XO (XO (XO (XI (XI XH))))))) :: ((Npos (XO (XO
+    (XO (XO (XO (XO XH))))))) :: ((Npos (XO (XO (XI (XO (XI (XO
+    XH))))))) :: ((Npos (XO XH)) :: []))))))), (Npos (XO (XO (XI (XI (XO (XI
+    (XI (XI (XO (XO (XO (XI (XO (XI (XO (XO (XI (XO (XO (XO (XI (XI (XI (XO
+    (XO (XO (XO (XO (XO (XO XH)))))))))))))))))))))))))))))))) :: (((((Npos
+    (XI (XI (XI (XO (XI XH)))))) :: ((Npos (XO (XO (XI (XO (XI
+    XH)))))) :: [])), ((Npos (XO (XO (XI (XI (XO (XI (XI XH)))))))) :: ((Npos
+    (XO (XO (XO (XI (XO XH)))))) :: ((Npos (XO (XO (XI (XI (XI (XI (XI
+    XH)))))))) :: ((Npos (XO (XI (XI XH)))) :: ((Npos (XO (XO (XI (XO (XI (XO
+    XH))))))) :: ((Npos (XO XH)) :: []))))))), (Npos (XO (XO (XI (XI (XO (XI
+    (XI (XI (XO (XO (XO (XI (XO (XI (XO (XO (XO (XO (XI (XI (XI (XI (XI (XI
+    (XO (XI (XI XH))))))))))))))))))))))))))))) :: (((((Npos (XI (XI (XI (XO
+    (XI XH)))))) :: ((Npos (XI (XO (XI (XO (XI XH)))))) :: [])), ((Npos (XO
+    (XO (XI (XI (XO (XI (XI XH)))))))) :: ((Npos (XI (XO (XO (XI (XO
+    XH)))))) :: ((Npos (XI (XI (XI (XO (XO XH)))))) :: ((Npos (XO (XI (XO (XI
+    XH))))) :: ((Npos (XO (XO (XI (XO (XI (XO XH))))))) :: ((Npos (XO
+    XH)) :: []))))))), (Npos (XO (XO (XI (XI (XO (XI (XI (XI (XI (XO (XO (XI
+    (XO (XI (XO (XO (XI (XI (XI (XO (XO (XI (XO (XO (XO (XI (XO (XI
+    XH)))))))))))))))))))))))))))))) :: (((((Npos (XI (XI (XI (XO (XI
+    XH)))))) :: ((Npos (XO (XI (XI (XO (XI XH)))))) :: [])), ((Npos (XO (XO
+    (XI (XI (XO (XI (XI XH)))))))) :: ((Npos (XO (XO (XO (XI (XO
+    XH)))))) :: ((Npos (XO (XO (XI (XO (XI (XI (XI XH)))))))) :: ((Npos (XO
+    (XO (XO (XI (XO (XO (XO XH)))))))) :: ((Npos (XO (XO (XI (XO (XI (XO
+    XH))))))) :: ((Npos (XO XH)) :: []))))))), (Npos (XO (XO (XI (XI (XO (XI
+    (XI (XI (XO (XO (XO (XI (XO (XI (XO (XO (XO (XO (XI (XO (XI (XI (XI (XI
+    (XO (XO (XO (XI (XO (XO (XO
+    XH))))))))))))))))))))))))))))))))) :: (((((Npos (XI (XI (XI (XO (XI
+    XH)))))) :: ((Npos (XI (XI (XI (XO (XI XH)))))) :: [])), ((Npos (XO (XO
+    (XI (XI (XO (XI (XI XH)))))))) :: ((Npos (XI (XO (XO (XI (XO
+    XH)))))) :: ((Npos (XI (XO (XO (XO XH))))) :: ((Npos (XI (XO (XI (XI
+    XH))))) :: ((Npos (XO (XO (XI (XO (XI (XO XH))))))) :: ((Npos (XO
+    XH)) :: []))))))), (Npos (XO (XO (XI (XI (XO (XI (XI (XI (XI (XO (XO (XI
+    (XO (XI (XO (XO (XI (XO (XO (XO (XI (XO (XO (XO (XI (XO (XI (XI
+    XH)))))))))))))))))))))))))))))) :: (((((Npos (XI (XI (XI (XO (XI
+    XH)))))) :: ((Npos (XO (XO (XO (XI (XI XH)))))) :: [])), ((Npos (XO (XO
+    (XI (XI (XO (XI (XI XH)))))))) :: ((Npos (XI (XO (XO (XI (XO
+    XH)))))) :: ((Npos (XI (XO (XI (XO (XO XH)))))) :: ((Npos (XO (XI (XI
+    XH)))) :: ((Npos (XO (XO (XI (XO (XI (XO XH))))))) :: ((Npos (XO
+    XH)) :: []))))))), (Npos (XO (XO (XI (XI (XO (XI (XI (XI (XI (XO (XO (XI
+    (XO (XI (XO (XO (XI (XO (XI (XO (XO (XI (XO (XO (XO (XI (XI
+    XH))))))))))))))))))))))))))))) :: (((((Npos (XO (XO (XO (XI (XI
+    XH)))))) :: ((Npos (XI (XO (XO (XO (XI XH)))))) :: [])), ((Npos (XO (XO
+    (XI (XI (XO (XI (XI XH)))))))) :: ((Npos (XO (XO (XO (XI (XO
+    XH)))))) :: ((Npos (XI (XO (XO (XI (XO (XO (XO XH)))))))) :: ((Npos (XO
+    (XO (XO (XI (XI (XO (XO XH)))))))) :: ((Npos (XO (XO (XI (XO (XI (XO
+    XH))))))) :: ((Npos (XO XH)) :: []))))))), (Npos (XO (XO (XI (XI (XO (XI
+    (XI (XI (XO (XO (XO (XI (XO (XI (XO (XO (XI (XO (XO (XI (XO (XO (XO (XI
+    (XO (XO (XO (XI (XI (XO (XO
+    XH))))))))))))))))))))))))))))))))) :: (((((Npos (XO (XO (XO (XI (XI
+    XH)))))) :: ((Npos (XO (XO (XI (XO (XI XH)))))) :: [])), ((Npos (XO (XO
+    (XI (XI (XO (XI (XI XH)))))))) :: ((Npos (XO (XO (XO (XI (XO
+    XH)))))) :: ((Npos (XI (XI (XI (XO (XO (XO (XO XH)))))))) :: ((Npos (XO
+    (XO (XO (XI (XO (XI XH))))))) :: ((Npos (XO (XO (XI (XO (XI (XO
+    XH))))))) :: ((Npos (XO XH)) :: []))))))), (Npos (XO (XO (XI (XI (XO (XI
+    (XI (XI (XO (XO (XO (XI (XO (XI (XO (XO (XI (XI (XI (XO (XO (XO (XO (XI
+    (XO (XO (XO (XI (XO (XI XH)))))))))))))))))))))))))))))))) :: (((((Npos
+    (XO (XO (XO (XI (XI XH)))))) :: ((Npos (XI (XO (XI (XO (XI
+    XH)))))) :: [])), ((Npos (XO (XO (XI (XI (XO (XI (XI XH)))))))) :: ((Npos
+    (XO (XO (XO (XI (XO XH)))))) :: ((Npos (XO (XO (XO (XI (XI (XO (XI
+    XH)))))))) :: ((Npos (XI (XI (XI (XO (XI (XI (XO XH)))))))) :: ((Npos (XO
+    (XO (XI (XO (XI (XO XH))))))) :: ((Npos (XO XH)) :: []))))))), (Npos (XO
+    (XO (XI (XI (XO (XI (XI (XI (XO (XO (XO (XI (XO (XI (XO (XO (XO (XO (XO
+    (XI (XI (XO (XI (XI (XI (XI (XI (XO (XI (XI (XO
+    XH))))))))))))))))))))))))))))))))) :: (((((Npos (XO (XO (XO (XI (XI
+    XH)))))) :: ((Npos (XI (XI (XI (XO (XI XH)))))) :: [])), ((Npos (XO (XO
+    (XI (XI (XO (XI (XI XH)))))))) :: ((Npos (XO (XO (XO (XI (XO
+    XH)))))) :: ((Npos (XO (XO (XI (XO (XI (XI (XI XH)))))))) :: ((Npos (XO
+    (XI (XO (XI (XO (XO (XO XH)))))))) :: ((Npos (XO (XO (XI (XO (XI (XO
+    XH))))))) :: ((Npos (XO XH)) :: []))))))), (Npos (XO (XO (XI (XI (XO (XI
+    (XI (XI (XO (XO (XO (XI (XO (XI (XO (XO (XO (XO (XI (XO (XI (XI (XI (XI
+    (XO (XI (XO (XI (XO (XO (XO
+    XH))))))))))))))))))))))))))))))))) :: (((((Npos (XO (XO (XO (XI (XI
+    XH)))))) :: ((Npos (XI (XO (XO (XI (XI XH)))))) :: [])), ((Npos (XI (XO
+    (XO (XI (XI XH)))))) :: ((Npos (XO (XO (XO (XI (XO (XI (XI
+    XH)))))))) :: ((Npos (XO (XI (XI (XO (XI (XI (XI XH)))))))) :: ((Npos (XI
+    (XO (XO (XI (XO XH)))))) :: ((Npos (XO (XO (XO (XI (XI (XO (XI
+    XH)))))))) :: ((Npos (XO XH)) :: []))))))), (Npos (XI (XO (XO (XI (XI (XI
+    (XO (XO (XO (XO (XO (XI (XO (XI (XI (XI (XO (XI (XI (XO (XI (XI (XI (XI
+    (XI (XO (XO (XI (XO XH))))))))))))))))))))))))))))))) :: (((((Npos (XI
+    (XO (XO (XI (XI XH)))))) :: ((Npos (XO (XO (XO (XO (XI XH)))))) :: [])),
+    ((Npos (XI (XO (XO (XI (XI XH)))))) :: ((Npos (XO (XO (XO (XI (XO (XI (XI
+    XH)))))))) :: ((Npos (XI (XO (XO (XO (XI (XO (XI XH)))))))) :: ((Npos (XO
+    (XO (XI (XI (XO (XO (XI XH)))))))) :: ((Npos (XO (XO (XO (XI (XI (XO (XI
+    XH)))))))) :: ((Npos (XO XH)) :: []))))))), (Npos (XI (XO (XO (XI (XI (XI
+    (XO (XO (XO (XO (XO (XI (XO (XI (XI (XI (XI (XO (XO (XO (XI (XO (XI (XI
+    (XO (XO (XI (XI (XO (XO (XI
+    XH))))))))))))))))))))))))))))))))) :: (((((Npos (XI (XO (XO (XI (XI
+    XH)))))) :: ((Npos (XI (XO (XO (XO (XI XH)))))) :: [])), ((Npos (XO (XO
+    (XI (XI (XO (XI (XI XH)))))))) :: ((Npos (XO (XO (XO (XI (XO
+    XH)))))) :: ((Npos (XO (XI (XI (XI (XI (XI (XO XH)))))))) :: ((Npos (XO
+    (XI (XO (XO (XI (XI XH))))))) :: ((Npos (XO (XO (XI (XO (XI (XO
+    XH))))))) :: ((Npos (XO XH)) :: []))))))), (Npos (XO (XO (XI (XI (XO (XI
+    (XI (XI (XO (XO (XO (XI (XO (XI (XO (XO (XO (XI (XI (XI (XI (XI (XO (XI
+    (XO (XI (XO (XO (XI (XI
+    XH)))))))))))))))))))))))))))))))) :: []))))))))))))))))))))))))))))))))))))))))))))))))))))))))))))))))))))))
+
+(** val adc_macs : n list list **)
+
+let adc_macs =
+  map snd alpha16_boards
+
+(** val pwb_macs : n list list **)
+
+let pwb_macs =
+  map (fun t -> snd (fst t)) padwing_boards
+
+(** val pwb_devices : n list **)
+
+let pwb_devices =
+  map snd padwing_boards
